@@ -1,6 +1,8 @@
 (* Proofs about Ledger/Conc.v: invariants of EVERY schedule (induction over the list of scheduled writers; no bound on the
-   number of writers or steps). *)
-From Coq Require Import List ZArith String Bool Arith Lia Sorted Permutation.
+   number of writers or steps).  Method: for each table a small inductive relation lists the ways one store call can change it
+   (fresh row with id = nextval, neutral rewrite, publication under the unique-index check, removal, commit, ...); the
+   table's invariant is preserved along the relation; every [step] is shown to be in the relation. *)
+From Coq Require Import List ZArith String Bool Arith Lia Sorted.
 From LV Require Import Ledger.Conc.
 Import ListNotations.
 Open Scope Z_scope.
@@ -15,28 +17,17 @@ Ltac brk := repeat match goal with
   | |- context [match ?x with _ => _ end] => destruct x eqn:?
   end.
 
-(* ---------------------------------------------------------------- ids: a table with a sequence *)
-Section Evo.
+(* ---------------------------------------------------------------- lists *)
+Section Ids.
   Context {A : Type} (idf : A -> Z).
-  (* how a table and its sequence evolve: fresh row with id = nextval, id-preserving rewrite, removal *)
-  Inductive evo : list A -> Z -> list A -> Z -> Prop :=
-  | evo_refl l n : evo l n l n
-  | evo_app l n row : idf row = n -> evo l n (l ++ [row]) (n + 1)
-  | evo_map l n f : (forall x, idf (f x) = idf x) -> evo l n (map f l) n
-  | evo_filter l n p : evo l n (filter p l) n
-  | evo_trans l1 n1 l2 n2 l3 n3 : evo l1 n1 l2 n2 -> evo l2 n2 l3 n3 -> evo l1 n1 l3 n3.
-
-  Definition ids_ok (l : list A) (n : Z) : Prop := NoDup (map idf l) /\ Forall (fun x => idf x < n) l.
-
-  Lemma nodup_snoc {B} (l : list B) x : NoDup l -> ~ In x l -> NoDup (l ++ [x]).
+  Lemma nodup_map_inj l x y : NoDup (map idf l) -> In x l -> In y l -> idf x = idf y -> x = y.
   Proof.
-    induction l as [|y r IH]; simpl; intros Hn Hx.
-    - constructor; [intros []|constructor].
-    - inversion Hn; subst. constructor.
-      + rewrite in_app_iff. simpl. intros [H|[H|[]]]; auto.
-      + apply IH; auto.
+    induction l as [|z r IH]; simpl; intros Hn Hx Hy E; [destruct Hx|].
+    destruct Hx as [Hx|Hx], Hy as [Hy|Hy]; subst; auto; inversion Hn; subst.
+    - exfalso. apply H1. rewrite E. apply in_map; auto.
+    - exfalso. apply H1. rewrite <- E. apply in_map; auto.
+    - apply IH; auto.
   Qed.
-
   Lemma nodup_map_filter (p : A -> bool) l : NoDup (map idf l) -> NoDup (map idf (filter p l)).
   Proof.
     induction l as [|y r IH]; simpl; intros Hn; auto.
@@ -45,184 +36,1345 @@ Section Evo.
     apply filter_In in Hin. apply in_map_iff. exists z. tauto.
   Qed.
 
-  Lemma evo_mono l n l' n' : evo l n l' n' -> n <= n'.
-  Proof. induction 1; lia. Qed.
+End Ids.
 
-  Lemma evo_ids_ok l n l' n' : evo l n l' n' -> ids_ok l n -> ids_ok l' n'.
+Section Lists.
+  Context {A B : Type}.
+
+  Lemma nodup_app_intro (a b : list B) : NoDup a -> NoDup b -> (forall x, In x a -> ~ In x b) -> NoDup (a ++ b).
   Proof.
-    induction 1 as [l n|l n row Hr|l n f Hf|l n p|l1 n1 l2 n2 l3 n3 _ IH1 _ IH2]; intros [Hn Hf'].
-    - split; auto.
-    - split.
-      + rewrite map_app. simpl. apply nodup_snoc; auto. intros Hin. apply in_map_iff in Hin. destruct Hin as [z [Hz Hin]].
-        rewrite Forall_forall in Hf'. specialize (Hf' z Hin). lia.
-      + apply Forall_app. split.
-        * eapply Forall_impl; [|exact Hf']. simpl. intros; lia.
-        * constructor; [lia|constructor].
-    - split.
-      + rewrite map_map. erewrite map_ext; [exact Hn|]. intros; apply Hf.
-      + apply Forall_forall. intros x Hx. apply in_map_iff in Hx. destruct Hx as [z [Hz Hin]]. subst. rewrite Hf.
-        rewrite Forall_forall in Hf'. auto.
-    - split.
-      + apply nodup_map_filter; auto.
-      + apply Forall_forall. intros x Hx. apply filter_In in Hx. rewrite Forall_forall in Hf'. apply Hf'. tauto.
-    - apply IH2. apply IH1. split; auto.
+    induction a as [|y r IH]; simpl; intros Ha Hb Hd; auto.
+    inversion Ha; subst. constructor.
+    - rewrite in_app_iff. intros [H|H]; [auto|]. eapply Hd; eauto.
+    - apply IH; auto.
   Qed.
-End Evo.
-#[global] Hint Constructors evo : conc.
+  Lemma nodup_app_l (a b : list B) : NoDup (a ++ b) -> NoDup a.
+  Proof. induction a as [|y r IH]; simpl; intros H; [constructor|]. inversion H; subst. constructor; [|auto]. intros Hi. apply H2. apply in_app_iff; auto. Qed.
+  Lemma nodup_app_r (a b : list B) : NoDup (a ++ b) -> NoDup b.
+  Proof. induction a as [|y r IH]; simpl; intros H; auto. inversion H; subst; auto. Qed.
+  Lemma nodup_app_disj (a b : list B) x : NoDup (a ++ b) -> In x a -> ~ In x b.
+  Proof.
+    induction a as [|y r IH]; simpl; intros H Hi Hb; [destruct Hi|]. destruct Hi as [E|Hi].
+    - subst. inversion H; subst. apply H2. apply in_app_iff; auto.
+    - inversion H; subst. eapply IH; eauto.
+  Qed.
 
-Definition tevo (g g' : gst) : Prop := evo t_id (g_txs g) (g_ntx g) (g_txs g') (g_ntx g').
-Definition levo (g g' : gst) : Prop := evo l_id (g_logs g) (g_nlog g) (g_logs g') (g_nlog g').
+  Variable keyf : A -> list B.
+  Lemma flat_map_map_same (f : A -> A) l : (forall x, In x l -> keyf (f x) = keyf x) -> flat_map keyf (map f l) = flat_map keyf l.
+  Proof. induction l as [|x r IH]; simpl; intros H; auto. rewrite H by auto. rewrite IH; auto. Qed.
+  Lemma in_flat_filter (p : A -> bool) l j : In j (flat_map keyf (filter p l)) -> In j (flat_map keyf l).
+  Proof. rewrite !in_flat_map. intros [x [Hx Hj]]. apply filter_In in Hx. exists x; tauto. Qed.
+  Lemma nodup_flat_filter (p : A -> bool) l : NoDup (flat_map keyf l) -> NoDup (flat_map keyf (filter p l)).
+  Proof.
+    induction l as [|x r IH]; simpl; intros H; auto.
+    destruct (p x); simpl.
+    - apply nodup_app_intro; [eapply nodup_app_l; eauto | apply IH; eapply nodup_app_r; eauto |].
+      intros j Hj Hj'. apply in_flat_filter in Hj'. eapply nodup_app_disj; eauto.
+    - apply IH. eapply nodup_app_r; eauto.
+  Qed.
 
-Lemma t_release_id w x : t_id (t_release w x) = t_id x.
+  Variable idf : A -> Z.
+  Lemma nodup_snoc (l : list B) x : NoDup l -> ~ In x l -> NoDup (l ++ [x]).
+  Proof. intros. apply nodup_app_intro; auto. - constructor; [intros []|constructor]. - intros y Hy [E|[]]. subst. auto. Qed.
+  (* publication: one row (identified by its id) starts exposing the key k, which nobody exposes yet *)
+  Lemma pub_keys (f : A -> A) (id : Z) (k : B) l :
+    NoDup (map idf l) -> NoDup (flat_map keyf l) -> ~ In k (flat_map keyf l) ->
+    (forall x, keyf (f x) = keyf x \/ (idf x = id /\ keyf x = [] /\ keyf (f x) = [k])) ->
+    NoDup (flat_map keyf (map f l)) /\ (forall j, In j (flat_map keyf (map f l)) -> In j (flat_map keyf l) \/ j = k).
+  Proof.
+    intros Hid Hk Hnk Hf. induction l as [|x r IH]; simpl; [split; [constructor|intros j []]|].
+    simpl in *. inversion Hid as [|? ? Hx Hr]; subst.
+    assert (Hkr : ~ In k (flat_map keyf r)) by (intros H; apply Hnk; apply in_app_iff; auto).
+    destruct (IH Hr (nodup_app_r _ _ Hk) Hkr) as [IH1 IH2].
+    destruct (Hf x) as [E|[Ei [E0 Ek]]].
+    - rewrite E. split.
+      + apply nodup_app_intro; [eapply nodup_app_l; eauto|exact IH1|].
+        intros j Hj Hj'. destruct (IH2 j Hj') as [H|H].
+        * eapply nodup_app_disj; eauto.
+        * subst. apply Hnk. apply in_app_iff; auto.
+      + intros j Hj. apply in_app_iff in Hj. destruct Hj as [Hj|Hj]; [left; apply in_app_iff; auto|].
+        destruct (IH2 j Hj); [left; apply in_app_iff; auto|auto].
+    - assert (Hs : flat_map keyf (map f r) = flat_map keyf r).
+      { apply flat_map_map_same. intros y Hy. destruct (Hf y) as [E|[Ey _]]; auto.
+        exfalso. apply Hx. rewrite Ei, <- Ey. apply in_map; auto. }
+      rewrite Ek, Hs, E0 in *. simpl. split.
+      + constructor; auto.
+      + intros j [Hj|Hj]; auto.
+  Qed.
+End Lists.
+
+(* sorted lists of integers *)
+Lemma sorted_app (a b : list Z) : StronglySorted Z.lt a -> StronglySorted Z.lt b -> (forall x y, In x a -> In y b -> x < y) -> StronglySorted Z.lt (a ++ b).
+Proof.
+  induction a as [|x r IH]; simpl; intros Ha Hb H; auto.
+  inversion Ha; subst. constructor; [apply IH; auto|].
+  apply Forall_app. split; auto. apply Forall_forall. intros y Hy. apply H; auto.
+Qed.
+Lemma sorted_nodup (l : list Z) : StronglySorted Z.lt l -> NoDup l.
+Proof. induction 1 as [|x r Hs IH Hf]; constructor; [|exact IH]. intros Hin. rewrite Forall_forall in Hf. specialize (Hf x Hin). lia. Qed.
+Lemma sorted_map_filter {A} (idf : A -> Z) (p : A -> bool) l : StronglySorted Z.lt (map idf l) -> StronglySorted Z.lt (map idf (filter p l)).
+Proof.
+  induction l as [|x r IH]; simpl; intros H; auto. inversion H; subst.
+  destruct (p x); simpl; auto. constructor; auto.
+  apply Forall_forall. intros y Hy. apply in_map_iff in Hy. destruct Hy as [z [Hz Hy]]. apply filter_In in Hy.
+  rewrite Forall_forall in H3. apply H3. apply in_map_iff. exists z; tauto.
+Qed.
+
+(* ---------------------------------------------------------------- the transactions table *)
+(* the reference a row holds in the unique index (ledger, reference) where reference <> '' *)
+Definition tkeys (t : trow) : list string := if t_pend t || String.eqb (t_ref t) "" then [] else [t_ref t].
+
+(* how one store call changes (transactions, transaction_id sequence, reverted targets) *)
+Inductive tevo : list trow -> Z -> list Z -> list trow -> Z -> list Z -> Prop :=
+| te_refl l n r : tevo l n r l n r
+| te_app l n r row : t_id row = n -> t_pend row = true -> t_rev row = false -> t_revlock row = None -> tevo l n r (l ++ [row]) (n + 1) r
+| te_map l n r f :
+    (forall x, t_id (f x) = t_id x /\ tkeys (f x) = tkeys x /\ t_rev (f x) = t_rev x /\
+               (t_revlock (f x) = t_revlock x \/ t_revlock (f x) = None \/ t_rev x = false)) -> tevo l n r (map f l) n r
+| te_filter l n r p : tevo l n r (filter p l) n r
+| te_pub l n r f id k :
+    (forall x, t_id (f x) = t_id x /\ t_rev (f x) = t_rev x /\ t_revlock (f x) = t_revlock x) ->
+    (forall x, tkeys (f x) = tkeys x \/ (t_id x = id /\ tkeys x = [] /\ tkeys (f x) = [k])) ->
+    ~ In k (flat_map tkeys l) -> tevo l n r (map f l) n r
+| te_commit l n r w : tevo l n r (map (t_commit w) l) n (r ++ map t_id (filter (fun t => owner_is (t_revlock t) w) l))
+| te_trans l1 n1 r1 l2 n2 r2 l3 n3 r3 : tevo l1 n1 r1 l2 n2 r2 -> tevo l2 n2 r2 l3 n3 r3 -> tevo l1 n1 r1 l3 n3 r3.
+
+Record tx_ok (l : list trow) (n : Z) (r : list Z) : Prop := {
+  tx_ids : NoDup (map t_id l);
+  tx_below : Forall (fun t => t_id t < n) l;
+  tx_keys : NoDup (flat_map tkeys l);                                   (* C14: unique index on non-empty references *)
+  tx_revs : NoDup r;                                                    (* C15: a transaction is reverted at most once *)
+  tx_revs_below : Forall (fun i => i < n) r;
+  tx_rev_marked : forall t, In t l -> In (t_id t) r -> t_rev t = true;
+  tx_lock_unrev : forall t, In t l -> t_revlock t <> None -> t_rev t = false }.
+
+Lemma owner_is_true o w : owner_is o w = true -> o = Some w.
+Proof. destruct o as [x|]; simpl; [|discriminate]. intros H. apply Nat.eqb_eq in H. subst; auto. Qed.
+
+Lemma tevo_ok l n r l' n' r' : tevo l n r l' n' r' -> tx_ok l n r -> tx_ok l' n' r'.
+Proof.
+  induction 1 as [l n r|l n r row Hi Hp Hrv Hrl|l n r f Hf|l n r p|l n r f id k Hf Hk Hnk|l n r w|l1 n1 r1 l2 n2 r2 l3 n3 r3 _ IH1 _ IH2]; intros [A B C D E F G].
+  - split; auto.
+  - (* fresh row *)
+    assert (Hfresh : ~ In (t_id row) (map t_id l)).
+    { intros Hin. apply in_map_iff in Hin. destruct Hin as [z [Hz Hin]]. rewrite Forall_forall in B. specialize (B z Hin). lia. }
+    split.
+    + rewrite map_app. simpl. apply nodup_snoc; auto.
+    + apply Forall_app. split; [eapply Forall_impl; [|exact B]; simpl; intros; lia|constructor; [lia|constructor]].
+    + rewrite flat_map_app. simpl. unfold tkeys at 2. rewrite Hp. simpl. rewrite app_nil_r. exact C.
+    + exact D.
+    + eapply Forall_impl; [|exact E]. simpl; intros; lia.
+    + intros t Ht Hr. apply in_app_iff in Ht. destruct Ht as [Ht|[Ht|[]]]; auto. subst.
+      rewrite Forall_forall in E. specialize (E _ Hr). lia.
+    + intros t Ht Hl. apply in_app_iff in Ht. destruct Ht as [Ht|[Ht|[]]]; auto. subst. exact Hrv.
+  - (* neutral rewrite *)
+    split; auto.
+    + rewrite map_map. erewrite map_ext; [exact A|]. intros; apply Hf.
+    + apply Forall_forall. intros x Hx. apply in_map_iff in Hx. destruct Hx as [z [Hz Hin]]. subst.
+      destruct (Hf z) as [-> _]. rewrite Forall_forall in B; auto.
+    + rewrite flat_map_map_same; auto. intros; apply Hf.
+    + intros t Ht Hr. apply in_map_iff in Ht. destruct Ht as [z [Hz Hin]]. subst. destruct (Hf z) as [E1 [_ [E3 _]]].
+      rewrite E3. apply F; auto. rewrite <- E1; auto.
+    + intros t Ht Hl. apply in_map_iff in Ht. destruct Ht as [z [Hz Hin]]. subst. destruct (Hf z) as [_ [_ [E3 [E4|[E4|E4]]]]]; rewrite E3.
+      * apply G; auto. rewrite <- E4; auto.
+      * contradiction.
+      * exact E4.
+  - (* removal *)
+    split; auto.
+    + apply nodup_map_filter; auto.
+    + apply Forall_forall. intros x Hx. apply filter_In in Hx. rewrite Forall_forall in B. apply B; tauto.
+    + apply nodup_flat_filter; auto.
+    + intros t Ht. apply filter_In in Ht. apply F; tauto.
+    + intros t Ht. apply filter_In in Ht. apply G; tauto.
+  - (* publication *)
+    split; auto.
+    + rewrite map_map. erewrite map_ext; [exact A|]. intros; apply Hf.
+    + apply Forall_forall. intros x Hx. apply in_map_iff in Hx. destruct Hx as [z [Hz Hin]]. subst.
+      destruct (Hf z) as [-> _]. rewrite Forall_forall in B; auto.
+    + eapply (pub_keys tkeys t_id f id k); eauto.
+    + intros t Ht Hr. apply in_map_iff in Ht. destruct Ht as [z [Hz Hin]]. subst. destruct (Hf z) as [E1 [E3 _]].
+      rewrite E3. apply F; auto. rewrite <- E1; auto.
+    + intros t Ht Hl. apply in_map_iff in Ht. destruct Ht as [z [Hz Hin]]. subst. destruct (Hf z) as [_ [E3 E4]]. rewrite E3.
+      apply G; auto. rewrite <- E4; auto.
+  - (* commit of w: its rows become visible, its revert marks are set *)
+    set (new := map t_id (filter (fun t => owner_is (t_revlock t) w) l)).
+    assert (Hnew : forall i, In i new -> exists t, In t l /\ t_revlock t = Some w /\ t_id t = i).
+    { intros i Hi. apply in_map_iff in Hi. destruct Hi as [t [Ht Hi]]. apply filter_In in Hi. destruct Hi as [Hi Ho].
+      exists t. split; auto. split; auto. apply owner_is_true; auto. }
+    split.
+    + rewrite map_map. simpl. exact A.
+    + apply Forall_forall. intros x Hx. apply in_map_iff in Hx. destruct Hx as [z [Hz Hin]]. subst. simpl.
+      rewrite Forall_forall in B; auto.
+    + rewrite flat_map_map_same; auto.
+    + apply nodup_app_intro; auto.
+      * apply nodup_map_filter; auto.
+      * intros i Hi Hn. destruct (Hnew i Hn) as [t [Ht [Hl Hid]]]. subst i.
+        assert (t_rev t = true) by (apply F; auto). assert (t_rev t = false) by (apply G; auto; congruence). congruence.
+    + apply Forall_app. split; auto. apply Forall_forall. intros i Hi. destruct (Hnew i Hi) as [t [Ht [_ Hid]]]. subst i.
+      rewrite Forall_forall in B; auto.
+    + intros t Ht Hr. apply in_map_iff in Ht. destruct Ht as [z [Hz Hin]]. subst. simpl in *.
+      apply in_app_iff in Hr. destruct Hr as [Hr|Hr].
+      * rewrite (F z Hin Hr). destruct (owner_is _ _); auto.
+      * destruct (Hnew _ Hr) as [t [Ht [Hl Hid]]].
+        assert (t = z) by (eapply (nodup_map_inj t_id); eauto). subst. rewrite Hl. simpl. rewrite Nat.eqb_refl. reflexivity.
+    + intros t Ht Hl. apply in_map_iff in Ht. destruct Ht as [z [Hz Hin]]. subst. simpl in *.
+      destruct (owner_is (t_revlock z) w); [contradiction|]. apply G; auto.
+  - apply IH2. apply IH1. split; auto.
+Qed.
+
+Definition txv (g : gst) := (g_txs g, g_ntx g, g_revs g).
+Definition tev (g g' : gst) : Prop := tevo (g_txs g) (g_ntx g) (g_revs g) (g_txs g') (g_ntx g') (g_revs g').
+Lemma tev_same g g' : g_txs g' = g_txs g -> g_ntx g' = g_ntx g -> g_revs g' = g_revs g -> tev g g'.
+Proof. unfold tev. intros -> -> ->. apply te_refl. Qed.
+Lemma tev_trans g1 g2 g3 : tev g1 g2 -> tev g2 g3 -> tev g1 g3.
+Proof. unfold tev. intros. eapply te_trans; eauto. Qed.
+
+Lemma tkeys_release w x : tkeys (t_release w x) = tkeys x.
 Proof. unfold t_release. destruct (owner_is _ _); reflexivity. Qed.
-Lemma t_commit_id w x : t_id (t_commit w x) = t_id x.
-Proof. reflexivity. Qed.
-Lemma t_publish_id i x : t_id (t_publish i x) = t_id x.
-Proof. unfold t_publish. destruct (_ =? _); reflexivity. Qed.
-Lemma l_commit_id w x : l_id (l_commit w x) = l_id x.
-Proof. reflexivity. Qed.
-Lemma l_publish_id i x : l_id (l_publish i x) = l_id x.
-Proof. unfold l_publish. destruct (_ =? _); reflexivity. Qed.
 
-Lemma tevo_abort g w : tevo g (abort g w).
-Proof. unfold tevo, abort; simpl. eapply evo_trans; [apply evo_filter|apply evo_map]. apply t_release_id. Qed.
-Lemma levo_abort g w : levo g (abort g w).
-Proof. unfold levo, abort; simpl. apply evo_filter. Qed.
+Lemma tev_abort g w : tev g (abort g w).
+Proof.
+  unfold tev, abort; simpl. eapply te_trans; [apply te_filter|apply te_map].
+  intros x. unfold t_release. destruct (owner_is (t_revlock x) w); simpl; repeat split; auto.
+Qed.
+Lemma tev_blocked g w h l : tev g (blocked g w h l).
+Proof. unfold blocked. destruct (reaches _ _ _ _); [apply (tev_abort g w)|apply tev_same; reflexivity]. Qed.
+Lemma tev_bal_done g w o r lk : tev g (bal_done g w o r lk).
+Proof. unfold bal_done. brk; apply tev_same; reflexivity. Qed.
 
-Lemma tevo_blocked g w h l : tevo g (blocked g w h l).
-Proof. unfold blocked. destruct (reaches _ _ _ _); unfold tevo; simpl; [apply tevo_abort|apply evo_refl]. Qed.
-Lemma levo_blocked g w h l : levo g (blocked g w h l).
-Proof. unfold blocked. destruct (reaches _ _ _ _); unfold levo; simpl; [apply levo_abort|apply evo_refl]. Qed.
-
-Lemma tevo_trans g1 g2 g3 : tevo g1 g2 -> tevo g2 g3 -> tevo g1 g3.
-Proof. unfold tevo. intros. eapply evo_trans; eauto. Qed.
-Lemma levo_trans g1 g2 g3 : levo g1 g2 -> levo g2 g3 -> levo g1 g3.
-Proof. unfold levo. intros. eapply evo_trans; eauto. Qed.
-
-(* same tables, same sequences *)
-Definition same_tx (g g' : gst) := g_txs g' = g_txs g /\ g_ntx g' = g_ntx g.
-Definition same_log (g g' : gst) := g_logs g' = g_logs g /\ g_nlog g' = g_nlog g.
-Lemma same_tevo g g' : same_tx g g' -> tevo g g'.
-Proof. intros [H1 H2]. unfold tevo. rewrite H1, H2. apply evo_refl. Qed.
-Lemma same_levo g g' : same_log g g' -> levo g g'.
-Proof. intros [H1 H2]. unfold levo. rewrite H1, H2. apply evo_refl. Qed.
-
-Lemma bal_done_same_tx g w o r lk : same_tx g (bal_done g w o r lk).
-Proof. unfold bal_done. brk; split; reflexivity. Qed.
-Lemma bal_done_same_log g w o r lk : same_log g (bal_done g w o r lk).
-Proof. unfold bal_done. brk; split; reflexivity. Qed.
-
-Lemma vol_loop_tevo ks : forall g w i, tevo g (vol_loop g w ks i).
+Lemma tev_vol_loop ks : forall g w i, tev g (vol_loop g w ks i).
 Proof.
   induction ks as [|[k d] r IH]; simpl; intros g w i.
-  - apply same_tevo; split; reflexivity.
-  - brk; try (eapply tevo_trans; [|apply IH]; apply same_tevo; split; reflexivity).
-    eapply tevo_trans; [|apply tevo_blocked]. apply same_tevo; split; reflexivity.
+  - apply tev_same; reflexivity.
+  - brk; try (eapply tev_trans; [|apply IH]; apply tev_same; reflexivity).
+    eapply tev_trans; [|apply tev_blocked]. apply tev_same; reflexivity.
 Qed.
-Lemma vol_loop_levo ks : forall g w i, levo g (vol_loop g w ks i).
+
+Lemma tev_do_bal g w s : tev g (do_bal g w s).
+Proof.
+  unfold do_bal. brk;
+    try (eapply tev_trans; [|apply tev_blocked]; apply tev_same; reflexivity);
+    try (unfold ev; match goal with |- tev ?g (set_ev (bal_done ?g1 ?w ?o ?r ?lk) _) =>
+           pose proof (tev_bal_done g1 w o r lk) as H; unfold tev in *; simpl in *; exact H end).
+Qed.
+
+Lemma find_none_keys (ref : string) l :
+  find (fun t => String.eqb (t_ref t) ref && negb (t_pend t)) l = None -> ~ In ref (flat_map tkeys l).
+Proof.
+  intros Hf Hin. apply in_flat_map in Hin. destruct Hin as [t [Ht Hk]].
+  pose proof (find_none _ _ Hf t Ht) as Hn. simpl in Hn. unfold tkeys in Hk.
+  destruct (t_pend t); simpl in *; [contradiction|]. destruct (String.eqb (t_ref t) ""); [contradiction|].
+  destruct Hk as [Hk|[]]. subst. rewrite String.eqb_refl in Hn. discriminate.
+Qed.
+
+Lemma t_publish_props id ref x : t_id (t_publish id ref x) = t_id x /\ t_rev (t_publish id ref x) = t_rev x /\ t_revlock (t_publish id ref x) = t_revlock x.
+Proof. unfold t_publish. destruct (_ && _); simpl; auto. Qed.
+Lemma t_publish_keys id ref x :
+  tkeys (t_publish id ref x) = tkeys x \/ (t_id x = id /\ tkeys x = [] /\ tkeys (t_publish id ref x) = [ref]).
+Proof.
+  unfold t_publish. destruct ((t_id x =? id) && String.eqb (t_ref x) ref) eqn:E; [|left; reflexivity].
+  apply andb_true_iff in E. destruct E as [E1 E2]. apply Z.eqb_eq in E1. apply String.eqb_eq in E2.
+  unfold tkeys; simpl. destruct (t_pend x); simpl; [|left; reflexivity].
+  destruct (String.eqb (t_ref x) ""); [left; reflexivity|]. right. subst. auto.
+Qed.
+Lemma t_publish_keys_empty id x : tkeys (t_publish id "" x) = tkeys x.
+Proof.
+  unfold t_publish. destruct ((t_id x =? id) && String.eqb (t_ref x) "") eqn:E; [|reflexivity].
+  apply andb_true_iff in E. destruct E as [_ E2]. unfold tkeys; simpl. rewrite E2. rewrite !orb_true_r. reflexivity.
+Qed.
+
+(* the insert phase of do_tx from a state g1: publication of the pending row *)
+Lemma tev_tx_insert_checked g1 (w : wid) id ref pc :
+  find (fun t => String.eqb (t_ref t) ref && negb (t_pend t)) (g_txs g1) = None ->
+  tev g1 (ev (upd_w (set_txs g1 (map (t_publish id ref) (g_txs g1))) w (fun s => wset_pc s pc)) w LTx SDone).
+Proof.
+  intros Hf. unfold tev; simpl. apply (te_pub _ _ _ _ id ref).
+  - intros x. apply t_publish_props.
+  - intros x. apply t_publish_keys.
+  - apply find_none_keys; auto.
+Qed.
+Lemma tev_tx_insert_empty g1 (w : wid) id pc :
+  tev g1 (ev (upd_w (set_txs g1 (map (t_publish id "") (g_txs g1))) w (fun s => wset_pc s pc)) w LTx SDone).
+Proof.
+  unfold tev; simpl. apply te_map. intros x. destruct (t_publish_props id "" x) as [A [B C]].
+  repeat split; auto. apply t_publish_keys_empty.
+Qed.
+
+Lemma tev_do_tx g w s : tev g (do_tx g w s).
+Proof.
+  unfold do_tx. destruct (my_pending_tx g w) as [r0|] eqn:Hp.
+  - destruct (String.eqb (t_ref r0) "") eqn:Er.
+    + apply String.eqb_eq in Er. rewrite Er. apply tev_tx_insert_empty.
+    + destruct (find _ (g_txs g)) as [t|] eqn:Hf.
+      * destruct (t_own t); [apply tev_blocked|]. unfold ev, fail_abort. pose proof (tev_abort g w) as H. unfold tev in *; simpl in *; exact H.
+      * apply tev_tx_insert_checked; auto.
+  - set (row := {| t_id := g_ntx g; t_ref := tx_ref (w_op s); t_own := Some w; t_rev := false; t_revlock := None; t_pend := true |}).
+    set (g1 := upd_w (set_ntx (set_txs g (g_txs g ++ [row])) (g_ntx g + 1)) w (fun s0 => wset_txid s0 (Some (g_ntx g)))).
+    assert (Hd : tev g g1) by (unfold tev, g1; simpl; apply te_app; reflexivity).
+    eapply tev_trans; [exact Hd|]. simpl.
+    destruct (String.eqb (tx_ref (w_op s)) "") eqn:Er.
+    + apply String.eqb_eq in Er. rewrite Er. apply (tev_tx_insert_empty g1).
+    + match goal with |- context [find ?p ?l] => destruct (find p l) as [t|] eqn:Hf end.
+      * destruct (t_own t); [apply (tev_blocked g1)|]. unfold ev, fail_abort. pose proof (tev_abort g1 w) as H. unfold tev in *; simpl in *; exact H.
+      * apply (tev_tx_insert_checked g1); auto.
+Qed.
+
+Lemma tev_do_log g w s : tev g (do_log g w s).
+Proof.
+  unfold do_log. destruct (g_hash g && negb (owner_is (g_adv g) w)); [apply tev_same; reflexivity|].
+  destruct (my_pending_log g w); brk; try (apply tev_same; reflexivity);
+    try (match goal with |- tev ?g (blocked ?g1 ?w ?h ?l) => pose proof (tev_blocked g1 w h l) as H; unfold tev in *; simpl in *; exact H end);
+    try (match goal with |- tev ?g (ev (fail_abort ?g1 ?w ?e) _ _ _) => pose proof (tev_abort g1 w) as H; unfold tev in *; simpl in *; exact H end).
+Qed.
+
+Lemma step_tev g w : tev g (step g w).
+Proof.
+  unfold step. destruct (get_w g w) as [s|]; [|apply tev_same; reflexivity].
+  destruct (w_pc s).
+  - unfold do_ik. brk; apply tev_same; reflexivity.
+  - unfold do_rev. brk; try (apply tev_blocked); try (apply tev_same; reflexivity).
+    unfold tev; simpl. apply te_map. intros x.
+    destruct ((t_id x =? o_tx (w_op s)) && _ && negb (t_rev x) && _) eqn:E; simpl; repeat split; auto.
+    apply andb_true_iff in E. destruct E as [E _]. apply andb_true_iff in E. destruct E as [_ E].
+    right; right. destruct (t_rev x); [discriminate|reflexivity].
+  - apply tev_do_bal.
+  - apply tev_vol_loop.
+  - apply tev_do_tx.
+  - unfold do_adv. brk; try (apply tev_blocked); apply tev_same; reflexivity.
+  - apply tev_do_log.
+  - unfold do_commit, tev; simpl. apply te_commit.
+  - unfold do_rollback. pose proof (tev_abort g w) as H. brk; unfold tev in *; simpl in *; exact H.
+  - unfold do_fetch. brk; apply tev_same; reflexivity.
+  - apply tev_same; reflexivity.
+Qed.
+
+Definition tx_inv (g : gst) : Prop := tx_ok (g_txs g) (g_ntx g) (g_revs g).
+Lemma step_tx_inv g w : tx_inv g -> tx_inv (step g w).
+Proof. intros H. eapply tevo_ok; [apply step_tev|exact H]. Qed.
+Theorem tx_inv_all_schedules g sched : tx_inv g -> tx_inv (run g sched).
+Proof. apply run_inv. apply step_tx_inv. Qed.
+
+(* ---------------------------------------------------------------- the logs table, its sequence, the advisory lock *)
+Definition lkeys (l : lrow) : list string := if l_pend l || String.eqb (l_ik l) "" then [] else [l_ik l].
+
+(* how one store call changes (logs, log_id sequence, advisory-lock holder, log ids in commit order); hash = HASH_LOGS is SYNC *)
+Inductive levo (hash : bool) : list lrow -> Z -> option wid -> list Z -> list lrow -> Z -> option wid -> list Z -> Prop :=
+| le_refl l n a c : levo hash l n a c l n a c
+| le_draw l n a c w row : (hash = true -> a = Some w) -> l_id row = n -> l_pend row = true -> l_own row = Some w ->
+    levo hash l n a c (l ++ [row]) (n + 1) a c
+| le_pub l n a c f id k :
+    (forall x, l_id (f x) = l_id x /\ l_own (f x) = l_own x) ->
+    (forall x, lkeys (f x) = lkeys x \/ (l_id x = id /\ lkeys x = [] /\ lkeys (f x) = [k])) ->
+    ~ In k (flat_map lkeys l) -> levo hash l n a c (map f l) n a c
+| le_map l n a c f : (forall x, l_id (f x) = l_id x /\ l_own (f x) = l_own x /\ lkeys (f x) = lkeys x) -> levo hash l n a c (map f l) n a c
+| le_commit l n a c w :
+    levo hash l n a c (map (l_commit w) l) n (if owner_is a w then None else a) (c ++ map l_id (filter (fun x => owner_is (l_own x) w) l))
+| le_abort l n a c w :
+    levo hash l n a c (filter (fun x => negb (owner_is (l_own x) w)) l) n (if owner_is a w then None else a) c
+| le_acquire l n c w : levo hash l n None c l n (Some w) c
+| le_trans l1 n1 a1 c1 l2 n2 a2 c2 l3 n3 a3 c3 :
+    levo hash l1 n1 a1 c1 l2 n2 a2 c2 -> levo hash l2 n2 a2 c2 l3 n3 a3 c3 -> levo hash l1 n1 a1 c1 l3 n3 a3 c3.
+
+Record log_ok (hash : bool) (l : list lrow) (n : Z) (a : option wid) (c : list Z) : Prop := {
+  lg_sorted : StronglySorted Z.lt (map l_id l);                         (* ids in insertion order: unique *)
+  lg_below : Forall (fun x => l_id x < n) l;
+  lg_keys : NoDup (flat_map lkeys l);                                   (* C13: unique index on idempotency keys *)
+  (* C16, with the advisory lock taken before nextval: *)
+  lg_order : hash = true -> StronglySorted Z.lt c;
+  lg_cbelow : hash = true -> Forall (fun i => i < n) c;
+  lg_holder : hash = true -> forall x w, In x l -> l_own x = Some w -> a = Some w /\ Forall (fun i => i < l_id x) c }.
+
+Lemma sorted_snoc (l : list Z) x : StronglySorted Z.lt l -> Forall (fun y => y < x) l -> StronglySorted Z.lt (l ++ [x]).
+Proof.
+  intros Hs Hf. apply sorted_app; auto.
+  - constructor; constructor.
+  - intros a b Ha [Hb|[]]. subst. rewrite Forall_forall in Hf. auto.
+Qed.
+
+Lemma levo_ok hash l n a c l' n' a' c' : levo hash l n a c l' n' a' c' -> log_ok hash l n a c -> log_ok hash l' n' a' c'.
+Proof.
+  induction 1 as [l n a c|l n a c w row Hg Hi Hp Ho|l n a c f id k Hf Hk Hnk|l n a c f Hf|l n a c w|l n a c w|l n c w|
+                  l1 n1 a1 c1 l2 n2 a2 c2 l3 n3 a3 c3 _ IH1 _ IH2]; intros [A B C D E F].
+  - split; auto.
+  - (* nextval + pending row *)
+    split.
+    + rewrite map_app. simpl. apply sorted_snoc; auto. apply Forall_forall. intros y Hy. apply in_map_iff in Hy.
+      destruct Hy as [z [Hz Hy]]. subst. rewrite Forall_forall in B. specialize (B z Hy). lia.
+    + apply Forall_app. split; [eapply Forall_impl; [|exact B]; simpl; intros; lia|constructor; [lia|constructor]].
+    + rewrite flat_map_app. simpl. unfold lkeys at 2. rewrite Hp. simpl. rewrite app_nil_r. exact C.
+    + exact D.
+    + intros H. eapply Forall_impl; [|exact (E H)]. simpl; intros; lia.
+    + intros H x w0 Hx Hw. apply in_app_iff in Hx. destruct Hx as [Hx|[Hx|[]]]; [eapply F; eauto|].
+      subst x. rewrite Ho in Hw. inversion Hw; subst w0. split; [auto|]. rewrite Hi. exact (E H).
+  - (* publication *)
+    split; auto.
+    + rewrite map_map. erewrite map_ext; [exact A|]. intros; apply Hf.
+    + apply Forall_forall. intros x Hx. apply in_map_iff in Hx. destruct Hx as [z [Hz Hin]]. subst.
+      destruct (Hf z) as [-> _]. rewrite Forall_forall in B; auto.
+    + eapply (pub_keys lkeys l_id f id k); eauto. apply sorted_nodup; auto.
+    + intros H x w0 Hx Hw. apply in_map_iff in Hx. destruct Hx as [z [Hz Hin]]. subst x. destruct (Hf z) as [E1 E2].
+      rewrite E1. rewrite E2 in Hw. eapply F; eauto.
+  - (* neutral rewrite *)
+    split; auto.
+    + rewrite map_map. erewrite map_ext; [exact A|]. intros; apply Hf.
+    + apply Forall_forall. intros x Hx. apply in_map_iff in Hx. destruct Hx as [z [Hz Hin]]. subst.
+      destruct (Hf z) as [-> _]. rewrite Forall_forall in B; auto.
+    + rewrite flat_map_map_same; auto. intros; apply Hf.
+    + intros H x w0 Hx Hw. apply in_map_iff in Hx. destruct Hx as [z [Hz Hin]]. subst x. destruct (Hf z) as [E1 [E2 _]].
+      rewrite E1. rewrite E2 in Hw. eapply F; eauto.
+  - (* commit of w *)
+    remember (map l_id (filter (fun x => owner_is (l_own x) w) l)) as new eqn:Enew.
+    assert (Hnew : forall i, In i new -> exists x, In x l /\ l_own x = Some w /\ l_id x = i).
+    { intros i Hi. rewrite Enew in Hi. apply in_map_iff in Hi. destruct Hi as [x [Hx Hi]]. apply filter_In in Hi. destruct Hi as [Hi Ho].
+      exists x. split; auto. split; auto. apply owner_is_true; auto. }
+    split.
+    + rewrite map_map. simpl. exact A.
+    + apply Forall_forall. intros x Hx. apply in_map_iff in Hx. destruct Hx as [z [Hz Hin]]. subst. simpl. rewrite Forall_forall in B; auto.
+    + rewrite flat_map_map_same; auto.
+    + intros H. apply sorted_app; [auto|rewrite Enew; apply sorted_map_filter; auto|].
+      intros x y Hx Hy. destruct (Hnew y Hy) as [z [Hz [Ho Hid]]]. subst y. destruct (F H z w Hz Ho) as [_ Hlt].
+      rewrite Forall_forall in Hlt. auto.
+    + intros H. apply Forall_app. split; auto. apply Forall_forall. intros i Hi. destruct (Hnew i Hi) as [z [Hz [_ Hid]]]. subst i.
+      rewrite Forall_forall in B; auto.
+    + intros H x w0 Hx Hw. apply in_map_iff in Hx. destruct Hx as [z [Hz Hin]]. subst x. simpl in *.
+      destruct (owner_is (l_own z) w) eqn:Eo; [discriminate|].
+      destruct (F H z w0 Hin Hw) as [Ha Hlt]. subst a.
+      assert (Hne : new = []).
+      { clear Enew. destruct new as [|i rest]; auto. exfalso. destruct (Hnew i) as [y [Hy [Hoy _]]]; [left; auto|].
+        destruct (F H y w Hy Hoy) as [Ha _]. inversion Ha; subst. rewrite Hw in Eo. simpl in Eo. rewrite Nat.eqb_refl in Eo. discriminate. }
+      rewrite Hne, app_nil_r. split; auto.
+      assert (w0 <> w). { intros ->. rewrite Hw in Eo. simpl in Eo. rewrite Nat.eqb_refl in Eo. discriminate. }
+      simpl. destruct (Nat.eqb w0 w) eqn:En; auto. apply Nat.eqb_eq in En. contradiction.
+  - (* abort of w *)
+    split; auto.
+    + apply sorted_map_filter; auto.
+    + apply Forall_forall. intros x Hx. apply filter_In in Hx. rewrite Forall_forall in B. apply B; tauto.
+    + apply nodup_flat_filter; auto.
+    + intros H x w0 Hx Hw. apply filter_In in Hx. destruct Hx as [Hx Hn].
+      destruct (F H x w0 Hx Hw) as [Ha Hlt]. subst a. split; auto.
+      rewrite Hw in Hn. simpl in *. destruct (Nat.eqb w0 w); [discriminate|reflexivity].
+  - (* the advisory lock is taken: it was free, so nobody has a log in flight *)
+    split; auto.
+    intros H x w0 Hx Hw. destruct (F H x w0 Hx Hw) as [Ha _]. discriminate.
+  - apply IH2. apply IH1. split; auto.
+Qed.
+
+Definition lev (g g' : gst) : Prop :=
+  levo (g_hash g) (g_logs g) (g_nlog g) (g_adv g) (g_clogs g) (g_logs g') (g_nlog g') (g_adv g') (g_clogs g') /\ g_hash g' = g_hash g.
+Lemma lev_same g g' : g_logs g' = g_logs g -> g_nlog g' = g_nlog g -> g_adv g' = g_adv g -> g_clogs g' = g_clogs g -> g_hash g' = g_hash g -> lev g g'.
+Proof. unfold lev. intros -> -> -> -> ->. split; [apply le_refl|reflexivity]. Qed.
+Lemma lev_trans g1 g2 g3 : lev g1 g2 -> lev g2 g3 -> lev g1 g3.
+Proof. unfold lev. intros [H1 E1] [H2 E2]. split; [|congruence]. rewrite E1 in H2. eapply le_trans; eauto. Qed.
+
+Lemma lev_abort g w : lev g (abort g w).
+Proof. unfold lev, abort; simpl. split; [apply le_abort|reflexivity]. Qed.
+Lemma lev_blocked g w h l : lev g (blocked g w h l).
+Proof. unfold blocked. destruct (reaches _ _ _ _); [apply (lev_abort g w)|apply lev_same; reflexivity]. Qed.
+Lemma lev_bal_done g w o r lk : lev g (bal_done g w o r lk).
+Proof. unfold bal_done. brk; apply lev_same; reflexivity. Qed.
+Lemma lev_vol_loop ks : forall g w i, lev g (vol_loop g w ks i).
 Proof.
   induction ks as [|[k d] r IH]; simpl; intros g w i.
-  - apply same_levo; split; reflexivity.
-  - brk; try (eapply levo_trans; [|apply IH]; apply same_levo; split; reflexivity).
-    eapply levo_trans; [|apply levo_blocked]. apply same_levo; split; reflexivity.
+  - apply lev_same; reflexivity.
+  - brk; try (eapply lev_trans; [|apply IH]; apply lev_same; reflexivity).
+    eapply lev_trans; [|apply lev_blocked]. apply lev_same; reflexivity.
 Qed.
-
-Lemma do_bal_tevo g w s : tevo g (do_bal g w s).
+Lemma lev_do_bal g w s : lev g (do_bal g w s).
 Proof.
   unfold do_bal. brk;
-    try (eapply tevo_trans; [|apply tevo_blocked]; apply same_tevo; split; reflexivity);
-    try (apply same_tevo; unfold ev; simpl;
-         match goal with |- same_tx ?g (set_ev (bal_done ?g1 ?w ?o ?r ?lk) _) => destruct (bal_done_same_tx g1 w o r lk) as [H1 H2]; split; simpl; [rewrite H1|rewrite H2]; reflexivity end).
+    try (eapply lev_trans; [|apply lev_blocked]; apply lev_same; reflexivity);
+    try (unfold ev; match goal with |- lev ?g (set_ev (bal_done ?g1 ?w ?o ?r ?lk) _) =>
+           pose proof (lev_bal_done g1 w o r lk) as H; unfold lev in *; simpl in *; exact H end).
 Qed.
-Lemma do_bal_levo g w s : levo g (do_bal g w s).
+Lemma lev_do_tx g w s : lev g (do_tx g w s).
 Proof.
-  unfold do_bal. brk;
-    try (eapply levo_trans; [|apply levo_blocked]; apply same_levo; split; reflexivity);
-    try (apply same_levo; unfold ev; simpl;
-         match goal with |- same_log ?g (set_ev (bal_done ?g1 ?w ?o ?r ?lk) _) => destruct (bal_done_same_log g1 w o r lk) as [H1 H2]; split; simpl; [rewrite H1|rewrite H2]; reflexivity end).
-Qed.
-
-Lemma do_tx_tevo g w s : tevo g (do_tx g w s).
-Proof.
-  unfold do_tx. destruct (w_txid s) as [i|].
-  - brk; try (apply tevo_blocked); unfold tevo; simpl;
-      try (apply evo_map; apply t_publish_id);
-      try (eapply evo_trans; [apply evo_filter|apply evo_map; apply t_release_id]).
-  - assert (Hd : evo t_id (g_txs g) (g_ntx g)
-             (g_txs g ++ [{| t_id := g_ntx g; t_ref := tx_ref (w_op s); t_own := Some w; t_rev := false; t_revlock := None; t_pend := true |}]) (g_ntx g + 1))
-      by (apply evo_app; reflexivity).
-    brk; unfold tevo; simpl;
-      try (eapply evo_trans; [exact Hd|]; apply evo_map; apply t_publish_id);
-      try (eapply evo_trans; [exact Hd|]; eapply evo_trans; [apply evo_filter|apply evo_map; apply t_release_id]).
-    all: try (eapply evo_trans; [exact Hd|];
-              match goal with |- evo _ _ _ (g_txs (blocked ?g1 ?w ?h ?l)) _ => exact (tevo_blocked g1 w h l) end).
+  unfold do_tx. destruct (my_pending_tx g w); brk; try (apply lev_same; reflexivity);
+    try (match goal with |- lev ?g (blocked ?g1 ?w ?h ?l) => pose proof (lev_blocked g1 w h l) as H; unfold lev in *; simpl in *; exact H end);
+    try (match goal with |- lev ?g (ev (fail_abort ?g1 ?w ?e) _ _ _) => pose proof (lev_abort g1 w) as H; unfold lev in *; simpl in *; exact H end).
 Qed.
 
-Lemma do_log_levo g w s : levo g (do_log g w s).
+Lemma find_none_lkeys (ik : string) l :
+  find (fun x => String.eqb (l_ik x) ik && negb (l_pend x)) l = None -> ~ In ik (flat_map lkeys l).
 Proof.
-  unfold do_log. destruct (g_hash g && negb (owner_is (g_adv g) w)); [apply same_levo; split; reflexivity|].
-  destruct (w_logid s) as [i|].
-  - brk; try (apply levo_blocked); unfold levo; simpl;
-      try (apply evo_map; apply l_publish_id);
-      try (apply evo_filter).
+  intros Hf Hin. apply in_flat_map in Hin. destruct Hin as [t [Ht Hk]].
+  pose proof (find_none _ _ Hf t Ht) as Hn. simpl in Hn. unfold lkeys in Hk.
+  destruct (l_pend t); simpl in *; [contradiction|]. destruct (String.eqb (l_ik t) ""); [contradiction|].
+  destruct Hk as [Hk|[]]. subst. rewrite String.eqb_refl in Hn. discriminate.
+Qed.
+Lemma l_publish_props id ik x : l_id (l_publish id ik x) = l_id x /\ l_own (l_publish id ik x) = l_own x.
+Proof. unfold l_publish. destruct (_ && _); simpl; auto. Qed.
+Lemma l_publish_keys id ik x :
+  lkeys (l_publish id ik x) = lkeys x \/ (l_id x = id /\ lkeys x = [] /\ lkeys (l_publish id ik x) = [ik]).
+Proof.
+  unfold l_publish. destruct ((l_id x =? id) && String.eqb (l_ik x) ik) eqn:E; [|left; reflexivity].
+  apply andb_true_iff in E. destruct E as [E1 E2]. apply Z.eqb_eq in E1. apply String.eqb_eq in E2.
+  unfold lkeys; simpl. destruct (l_pend x); simpl; [|left; reflexivity].
+  destruct (String.eqb (l_ik x) ""); [left; reflexivity|]. right. subst. auto.
+Qed.
+Lemma l_publish_keys_empty id x : lkeys (l_publish id "" x) = lkeys x.
+Proof.
+  unfold l_publish. destruct ((l_id x =? id) && String.eqb (l_ik x) "") eqn:E; [|reflexivity].
+  apply andb_true_iff in E. destruct E as [_ E2]. unfold lkeys; simpl. rewrite E2. rewrite !orb_true_r. reflexivity.
+Qed.
+Lemma lev_log_insert_checked g1 (w : wid) id ik :
+  find (fun x => String.eqb (l_ik x) ik && negb (l_pend x)) (g_logs g1) = None ->
+  lev g1 (ev (upd_w (set_logs g1 (map (l_publish id ik) (g_logs g1))) w (fun s => wset_pc s PCommit)) w LLog SDone).
+Proof.
+  intros Hf. unfold lev; simpl. split; [|reflexivity]. apply (le_pub _ _ _ _ _ _ id ik).
+  - intros x. apply l_publish_props.
+  - intros x. apply l_publish_keys.
+  - apply find_none_lkeys; auto.
+Qed.
+Lemma lev_log_insert_empty g1 (w : wid) id :
+  lev g1 (ev (upd_w (set_logs g1 (map (l_publish id "") (g_logs g1))) w (fun s => wset_pc s PCommit)) w LLog SDone).
+Proof.
+  unfold lev; simpl. split; [|reflexivity]. apply le_map. intros x. destruct (l_publish_props id "" x) as [A B].
+  repeat split; auto. apply l_publish_keys_empty.
+Qed.
+
+Lemma lev_do_log g w s : lev g (do_log g w s).
+Proof.
+  unfold do_log. destruct (g_hash g && negb (owner_is (g_adv g) w)) eqn:Hguard; [apply lev_same; reflexivity|].
+  destruct (my_pending_log g w) as [r0|] eqn:Hp.
+  - destruct (String.eqb (l_ik r0) "") eqn:Er.
+    + apply String.eqb_eq in Er. rewrite Er. apply lev_log_insert_empty.
+    + destruct (find _ (g_logs g)) as [t|] eqn:Hf.
+      * destruct (l_own t); [apply lev_blocked|]. unfold ev, fail_abort. pose proof (lev_abort g w) as H. unfold lev in *; simpl in *; exact H.
+      * apply lev_log_insert_checked; auto.
   - set (row := {| l_id := g_nlog g; l_ik := o_ik (w_op s); l_inh := o_inh (w_op s); l_own := Some w;
                    l_tx := match w_txid s with Some i => i | None => 0 end; l_pend := true |}).
-    assert (Hd : evo l_id (g_logs g) (g_nlog g) (g_logs g ++ [row]) (g_nlog g + 1)) by (apply evo_app; reflexivity).
-    brk; unfold levo; simpl;
-      try (eapply evo_trans; [exact Hd|]; apply evo_map; apply l_publish_id);
-      try (eapply evo_trans; [exact Hd|]; apply evo_filter).
-    all: try (eapply evo_trans; [exact Hd|];
-              match goal with |- evo _ _ _ (g_logs (blocked ?g1 ?w ?h ?l)) _ => exact (levo_blocked g1 w h l) end).
+    set (g1 := upd_w (set_nlog (set_logs g (g_logs g ++ [row])) (g_nlog g + 1)) w (fun s0 => wset_logid s0 (Some (g_nlog g)))).
+    assert (Hd : lev g g1).
+    { unfold lev, g1; simpl. split; [|reflexivity]. apply (le_draw _ _ _ _ _ w); try reflexivity.
+      intros Hh. rewrite Hh in Hguard. simpl in Hguard. apply negb_false_iff in Hguard. apply owner_is_true; auto. }
+    eapply lev_trans; [exact Hd|]. simpl.
+    destruct (String.eqb (o_ik (w_op s)) "") eqn:Er.
+    + apply String.eqb_eq in Er. rewrite Er. apply (lev_log_insert_empty g1).
+    + match goal with |- context [find ?p ?l] => destruct (find p l) as [t|] eqn:Hf end.
+      * destruct (l_own t); [apply (lev_blocked g1)|]. unfold ev, fail_abort. pose proof (lev_abort g1 w) as H. unfold lev in *; simpl in *; exact H.
+      * apply (lev_log_insert_checked g1); auto.
 Qed.
 
-Lemma step_tevo g w : tevo g (step g w).
+Lemma step_lev g w : lev g (step g w).
 Proof.
-  unfold step. destruct (get_w g w) as [s|]; [|apply same_tevo; split; reflexivity].
+  unfold step. destruct (get_w g w) as [s|]; [|apply lev_same; reflexivity].
   destruct (w_pc s).
-  - unfold do_ik. brk; apply same_tevo; split; reflexivity.
-  - unfold do_rev. brk; try (apply tevo_blocked); try (apply same_tevo; split; reflexivity).
-    unfold tevo; simpl. apply evo_map. intros x. destruct (_ && _); reflexivity.
-  - apply do_bal_tevo.
-  - apply vol_loop_tevo.
-  - apply do_tx_tevo.
-  - unfold do_adv. brk; try (apply tevo_blocked); apply same_tevo; split; reflexivity.
-  - unfold do_log. destruct (g_hash g && negb (owner_is (g_adv g) w)); [apply same_tevo; split; reflexivity|].
-    destruct (w_logid s); brk; unfold tevo; simpl; try apply evo_refl;
-      try (eapply evo_trans; [apply evo_filter|apply evo_map; apply t_release_id]);
-      try (match goal with |- evo _ _ _ (g_txs (blocked ?g1 ?w ?h ?l)) _ => exact (tevo_blocked g1 w h l) end).
-  - unfold do_commit, tevo; simpl. apply evo_map. apply t_commit_id.
-  - unfold do_rollback. brk; unfold tevo; simpl; eapply evo_trans; try apply evo_filter; apply evo_map; apply t_release_id.
-  - unfold do_fetch. brk; apply same_tevo; split; reflexivity.
-  - apply same_tevo; split; reflexivity.
+  - unfold do_ik. brk; apply lev_same; reflexivity.
+  - unfold do_rev. brk; try (apply lev_blocked); apply lev_same; reflexivity.
+  - apply lev_do_bal.
+  - apply lev_vol_loop.
+  - apply lev_do_tx.
+  - unfold do_adv. destruct (g_adv g) as [h|] eqn:Ha.
+    + destruct (Nat.eqb h w); [apply lev_same; reflexivity|apply lev_blocked].
+    + unfold lev; simpl. rewrite Ha. split; [apply le_acquire|reflexivity].
+  - apply lev_do_log.
+  - unfold do_commit, lev; simpl. split; [apply le_commit|reflexivity].
+  - unfold do_rollback. pose proof (lev_abort g w) as H. brk; unfold lev in *; simpl in *; exact H.
+  - unfold do_fetch. brk; apply lev_same; reflexivity.
+  - apply lev_same; reflexivity.
 Qed.
 
-Lemma step_levo g w : levo g (step g w).
+Definition log_inv (g : gst) : Prop := log_ok (g_hash g) (g_logs g) (g_nlog g) (g_adv g) (g_clogs g).
+Lemma step_log_inv g w : log_inv g -> log_inv (step g w).
+Proof. intros H. destruct (step_lev g w) as [H1 H2]. unfold log_inv. rewrite H2. eapply levo_ok; [exact H1|exact H]. Qed.
+Theorem log_inv_all_schedules g sched : log_inv g -> log_inv (run g sched).
+Proof. apply run_inv. apply step_log_inv. Qed.
+
+(* ---------------------------------------------------------------- accounts_volumes: row locks (two-phase locking) *)
+(* what ONE store call of writer w can do to the volumes table: insert a row for a key that has none, rewrite rows that are
+   free or its own (never a row locked by somebody else), remove its own in-flight rows *)
+Inductive vevo (w : wid) : list vrow -> list vrow -> Prop :=
+| ve_refl l : vevo w l l
+| ve_app l row : vfind l (v_key row) = None -> v_lock row = Some w -> vevo w l (l ++ [row])
+| ve_map l f :
+    (forall x, v_key (f x) = v_key x) ->
+    (forall x h, v_lock x = Some h -> h <> w -> f x = x) ->
+    (forall x, v_lock (f x) = None -> (v_pend (f x) = 0 /\ v_upd (f x) = false) \/ f x = x) ->
+    (forall x, v_new x = false -> v_new (f x) = false) -> vevo w l (map f l)
+| ve_filter l p : (forall x, p x = false -> v_new x = true /\ v_lock x = Some w) -> vevo w l (filter p l)
+| ve_trans l1 l2 l3 : vevo w l1 l2 -> vevo w l2 l3 -> vevo w l1 l3.
+
+Lemma ckey_eqb_eq a b : ckey_eqb a b = true <-> a = b.
 Proof.
-  unfold step. destruct (get_w g w) as [s|]; [|apply same_levo; split; reflexivity].
-  destruct (w_pc s).
-  - unfold do_ik. brk; apply same_levo; split; reflexivity.
-  - unfold do_rev. brk; try (apply levo_blocked); apply same_levo; split; reflexivity.
-  - apply do_bal_levo.
-  - apply vol_loop_levo.
-  - unfold do_tx. destruct (w_txid s); brk; unfold levo; simpl; try apply evo_refl; try apply evo_filter;
-      try (match goal with |- evo _ _ _ (g_logs (blocked ?g1 ?w ?h ?l)) _ => exact (levo_blocked g1 w h l) end).
-  - unfold do_adv. brk; try (apply levo_blocked); apply same_levo; split; reflexivity.
-  - apply do_log_levo.
-  - unfold do_commit, levo; simpl. apply evo_map. apply l_commit_id.
-  - unfold do_rollback. brk; unfold levo; simpl; apply evo_filter.
-  - unfold do_fetch. brk; apply same_levo; split; reflexivity.
-  - apply same_levo; split; reflexivity.
+  destruct a as [a1 a2], b as [b1 b2]; unfold ckey_eqb; simpl.
+  rewrite andb_true_iff, !String.eqb_eq. split; [intros [-> ->]; reflexivity | intros H; inversion H; auto].
+Qed.
+Lemma ckey_eqb_refl a : ckey_eqb a a = true.
+Proof. apply ckey_eqb_eq; reflexivity. Qed.
+
+Lemma vfind_key vs k r : vfind vs k = Some r -> v_key r = k /\ In r vs.
+Proof. unfold vfind. intros H. apply find_some in H. destruct H as [Hi Hk]. apply ckey_eqb_eq in Hk. auto. Qed.
+
+Lemma vfind_app_some vs k r row : vfind vs k = Some r -> vfind (vs ++ [row]) k = Some r.
+Proof. unfold vfind. induction vs as [|x t IH]; simpl; [discriminate|]. destruct (ckey_eqb (v_key x) k); auto. Qed.
+Lemma vfind_app_none vs k row : vfind vs k = None -> vfind (vs ++ [row]) k = if ckey_eqb (v_key row) k then Some row else None.
+Proof. unfold vfind. induction vs as [|x t IH]; simpl; auto. destruct (ckey_eqb (v_key x) k); [discriminate|auto]. Qed.
+Lemma vfind_map vs k f : (forall x, v_key (f x) = v_key x) -> vfind (map f vs) k = option_map f (vfind vs k).
+Proof. intros Hk. unfold vfind. induction vs as [|x t IH]; simpl; auto. rewrite Hk. destruct (ckey_eqb (v_key x) k); auto. Qed.
+Lemma vfind_filter vs k p r : vfind vs k = Some r -> p r = true -> vfind (filter p vs) k = Some r.
+Proof.
+  unfold vfind. induction vs as [|x t IH]; simpl; [discriminate|]. destruct (ckey_eqb (v_key x) k) eqn:E.
+  - intros H Hp. inversion H; subst. rewrite Hp. simpl. rewrite E. reflexivity.
+  - intros H Hp. destruct (p x); simpl; [rewrite E|]; auto.
 Qed.
 
-Definition ids_inv (g : gst) : Prop := ids_ok t_id (g_txs g) (g_ntx g) /\ ids_ok l_id (g_logs g) (g_nlog g).
+(* a row locked by another writer is not touched *)
+Lemma vevo_frame w l l' : vevo w l l' -> forall k r h, vfind l k = Some r -> v_lock r = Some h -> h <> w -> vfind l' k = Some r.
+Proof.
+  induction 1 as [l|l row Hn Hl|l f Hk Ho Hu Hnw|l p Hp|l1 l2 l3 _ IH1 _ IH2]; intros k r h Hf Hlk Hne; auto.
+  - apply vfind_app_some; auto.
+  - rewrite vfind_map by auto. rewrite Hf. simpl. rewrite (Ho r h); auto.
+  - apply vfind_filter; auto. destruct (p r) eqn:E; auto. destruct (Hp r E) as [_ H]. congruence.
+  - eauto.
+Qed.
+(* unlocked rows carry no pending change *)
+Definition unlocked_clean (l : list vrow) : Prop := forall r, In r l -> v_lock r = None -> v_pend r = 0 /\ v_upd r = false.
+Lemma vevo_clean w l l' : vevo w l l' -> unlocked_clean l -> unlocked_clean l'.
+Proof.
+  induction 1 as [l|l row Hn Hl|l f Hk Ho Hu Hnw|l p Hp|l1 l2 l3 _ IH1 _ IH2]; intros U; auto.
+  - intros r Hr Hlk. apply in_app_iff in Hr. destruct Hr as [Hr|[Hr|[]]]; [auto|]. subst. congruence.
+  - intros r Hr Hlk. apply in_map_iff in Hr. destruct Hr as [x [Hx Hin]]. subst. destruct (Hu x Hlk) as [H|H]; auto.
+    rewrite H in *. auto.
+  - intros r Hr. apply filter_In in Hr. apply U; tauto.
+Qed.
+(* a committed row never disappears *)
+Lemma vevo_exists w l l' : vevo w l l' -> forall k r, vfind l k = Some r -> v_new r = false -> exists r', vfind l' k = Some r' /\ v_new r' = false.
+Proof.
+  induction 1 as [l|l row Hn Hl|l f Hk Ho Hu Hnw|l p Hp|l1 l2 l3 _ IH1 _ IH2]; intros k r Hf Hnew; eauto.
+  - exists r. split; auto. apply vfind_app_some; auto.
+  - exists (f r). rewrite vfind_map by auto. rewrite Hf. simpl. auto.
+  - exists r. split; auto. apply vfind_filter; auto. destruct (p r) eqn:E; auto. destruct (Hp r E) as [H _]. congruence.
+  - destruct (IH1 k r Hf Hnew) as [r1 [H1 H2]]. eauto.
+Qed.
 
-Lemma step_ids_inv g w : ids_inv g -> ids_inv (step g w).
-Proof. intros [Ht Hl]. split; [eapply evo_ids_ok; [apply step_tevo|exact Ht] | eapply evo_ids_ok; [apply step_levo|exact Hl]]. Qed.
+Definition vev (w : wid) (g g' : gst) : Prop := vevo w (g_vols g) (g_vols g').
+Lemma vev_same w g g' : g_vols g' = g_vols g -> vev w g g'.
+Proof. unfold vev. intros ->. apply ve_refl. Qed.
+Lemma vev_trans w g1 g2 g3 : vev w g1 g2 -> vev w g2 g3 -> vev w g1 g3.
+Proof. unfold vev. intros. eapply ve_trans; eauto. Qed.
 
-Theorem ids_unique_all_schedules g sched : ids_inv g -> ids_inv (run g sched).
-Proof. apply run_inv. apply step_ids_inv. Qed.
+Lemma owner_is_other h w : h <> w -> owner_is (Some h) w = false.
+Proof. intros H. simpl. apply Nat.eqb_neq; auto. Qed.
 
-Lemma ids_inv_init hash ops : ids_inv (init hash ops).
-Proof. split; split; simpl; constructor. Qed.
-Lemma ids_inv_reseat g ops : ids_inv g -> ids_inv (reseat g ops).
-Proof. intros H; exact H. Qed.
+Lemma vev_abort g w : vev w g (abort g w).
+Proof.
+  unfold vev, abort; simpl. eapply ve_trans; [apply ve_filter|apply ve_map].
+  - intros x Hx. apply negb_false_iff in Hx. apply andb_true_iff in Hx. destruct Hx as [H1 H2]. split; auto. apply owner_is_true; auto.
+  - intros x. unfold v_release. destruct (owner_is _ _); reflexivity.
+  - intros x h Hl Hne. unfold v_release. rewrite Hl, owner_is_other; auto.
+  - intros x. unfold v_release. destruct (owner_is (v_lock x) w); simpl; auto.
+  - intros x Hn. unfold v_release. destruct (owner_is _ _); simpl; auto.
+Qed.
+Lemma vev_blocked g w h l : vev w g (blocked g w h l).
+Proof. unfold blocked. destruct (reaches _ _ _ _); [apply (vev_abort g w)|apply vev_same; reflexivity]. Qed.
+Lemma vev_bal_done g w o r lk : vev w g (bal_done g w o r lk).
+Proof. unfold bal_done. brk; apply vev_same; reflexivity. Qed.
+
+Lemma free_for_other w x h : v_lock x = Some h -> h <> w -> free_for w x = false.
+Proof. unfold free_for. intros -> H. apply Nat.eqb_neq; auto. Qed.
+
+Lemma vevo_vtake w l k f :
+  (forall x, v_key (f x) = v_key x) -> (forall x, v_lock (f x) = Some w) -> (forall x, v_new (f x) = v_new x) -> vevo w l (vtake l w k f).
+Proof.
+  intros Hk Hl Hn. unfold vtake. apply ve_map.
+  - intros x. destruct (_ && _); auto.
+  - intros x h Hx Hne. rewrite (free_for_other w x h); auto. rewrite andb_false_r. reflexivity.
+  - intros x. destruct (_ && _); auto. rewrite Hl. discriminate.
+  - intros x Hx. destruct (_ && _); auto. rewrite Hn; auto.
+Qed.
+
+Lemma vev_vol_loop ks : forall g w i, vev w g (vol_loop g w ks i).
+Proof.
+  induction ks as [|[k d] r IH]; simpl; intros g w i.
+  - apply vev_same; reflexivity.
+  - destruct (vfind (g_vols g) k) as [x|] eqn:Hf.
+    + assert (Htake : vev w g (set_vols g (vtake (g_vols g) w k (fun x0 => {| v_key := v_key x0; v_bal := v_bal x0;
+                 v_pend := if v_upd x0 then v_pend x0 else v_pend x0 + d; v_lock := Some w; v_new := v_new x0; v_upd := true |})))).
+      { unfold vev; simpl. apply vevo_vtake; auto. }
+      destruct (v_lock x) as [h|].
+      * destruct (Nat.eqb h w).
+        -- eapply vev_trans; [exact Htake|apply IH].
+        -- eapply vev_trans; [|apply vev_blocked]. apply vev_same; reflexivity.
+      * eapply vev_trans; [exact Htake|apply IH].
+    + eapply vev_trans; [|apply IH]. unfold vev; simpl. apply ve_app; auto.
+Qed.
+
+Lemma vev_do_bal g w s : vev w g (do_bal g w s).
+Proof.
+  unfold do_bal. destruct (vfind (g_vols g) (src_key (w_op s))) as [x|] eqn:Hf.
+  - brk;
+    try (eapply vev_trans; [|apply vev_blocked]; apply vev_same; reflexivity);
+    try (unfold ev; match goal with |- vev ?w ?g (set_ev (bal_done ?g1 ?w ?o ?r ?lk) _) =>
+           apply (vev_trans w g g1); [|pose proof (vev_bal_done g1 w o r lk) as H; unfold vev in *; simpl in *; exact H] end;
+         first [apply vev_same; reflexivity | unfold vev; simpl; apply vevo_vtake; auto]).
+  - unfold ev. match goal with |- vev ?w ?g (set_ev (bal_done ?g1 ?w ?o ?r ?lk) _) =>
+       apply (vev_trans w g g1); [|pose proof (vev_bal_done g1 w o r lk) as H; unfold vev in *; simpl in *; exact H] end.
+    unfold vev; simpl. apply ve_app; auto.
+Qed.
+
+Lemma step_vev g w : vev w g (step g w).
+Proof.
+  unfold step. destruct (get_w g w) as [s|]; [|apply vev_same; reflexivity].
+  destruct (w_pc s).
+  - unfold do_ik. brk; apply vev_same; reflexivity.
+  - unfold do_rev. brk; try (apply vev_blocked); apply vev_same; reflexivity.
+  - apply vev_do_bal.
+  - apply vev_vol_loop.
+  - unfold do_tx. destruct (my_pending_tx g w); brk; try (apply vev_same; reflexivity);
+      try (match goal with |- vev ?w ?g (blocked ?g1 ?w ?h ?l) => pose proof (vev_blocked g1 w h l) as H; unfold vev in *; simpl in *; exact H end);
+      try (match goal with |- vev ?w ?g (ev (fail_abort ?g1 ?w ?e) _ _ _) => pose proof (vev_abort g1 w) as H; unfold vev in *; simpl in *; exact H end).
+  - unfold do_adv. brk; try (apply vev_blocked); apply vev_same; reflexivity.
+  - unfold do_log. destruct (g_hash g && negb (owner_is (g_adv g) w)); [apply vev_same; reflexivity|].
+    destruct (my_pending_log g w); brk; try (apply vev_same; reflexivity);
+      try (match goal with |- vev ?w ?g (blocked ?g1 ?w ?h ?l) => pose proof (vev_blocked g1 w h l) as H; unfold vev in *; simpl in *; exact H end);
+      try (match goal with |- vev ?w ?g (ev (fail_abort ?g1 ?w ?e) _ _ _) => pose proof (vev_abort g1 w) as H; unfold vev in *; simpl in *; exact H end).
+  - unfold do_commit, vev; simpl. apply ve_map.
+    + intros x. unfold v_commit. destruct (owner_is _ _); reflexivity.
+    + intros x h Hl Hne. unfold v_commit. rewrite Hl, owner_is_other; auto.
+    + intros x. unfold v_commit. destruct (owner_is (v_lock x) w); simpl; auto.
+    + intros x Hn. unfold v_commit. destruct (owner_is _ _); simpl; auto.
+  - unfold do_rollback. pose proof (vev_abort g w) as H. brk; unfold vev in *; simpl in *; exact H.
+  - unfold do_fetch. brk; apply vev_same; reflexivity.
+  - apply vev_same; reflexivity.
+Qed.
+
+(* ---------------------------------------------------------------- writers: a step of w leaves the others alone *)
+Lemma nth_upd_same {A} (l : list A) w f : nth_error (upd_nth l w f) w = option_map f (nth_error l w).
+Proof. revert w. induction l as [|x r IH]; intros [|w]; simpl; auto. Qed.
+Lemma nth_upd_other {A} (l : list A) w w0 f : w0 <> w -> nth_error (upd_nth l w f) w0 = nth_error l w0.
+Proof. revert w w0. induction l as [|x r IH]; intros [|w] [|w0] H; simpl; auto; try congruence. Qed.
+Lemma nth_clear ws h w : nth_error (clear_waits ws h) w = option_map (fun s => if owner_is (w_wait s) h then wset_wait s None else s) (nth_error ws w).
+Proof. unfold clear_waits. apply nth_error_map. Qed.
+
+Definition wcore (s : wst) := (w_op s, w_pc s, w_read s, w_locked s, w_norow s).
+Definition wsev (w : wid) (ws ws' : list wst) : Prop :=
+  forall w0, w0 <> w -> option_map wcore (nth_error ws' w0) = option_map wcore (nth_error ws w0).
+(* wev: the other writers are untouched (up to their wake-up); fev: and no C06 record is added *)
+Definition wev (w : wid) (g g' : gst) : Prop := wsev w (g_ws g) (g_ws g').
+Definition fev (w : wid) (g g' : gst) : Prop := wsev w (g_ws g) (g_ws g') /\ g_c06 g' = g_c06 g.
+
+Lemma wsev_refl w ws : wsev w ws ws.
+Proof. intros w0 _. reflexivity. Qed.
+Lemma wsev_trans w a b c : wsev w a b -> wsev w b c -> wsev w a c.
+Proof. intros H1 H2 w0 Hn. rewrite H2, H1; auto. Qed.
+Lemma wsev_upd w ws f : wsev w ws (upd_nth ws w f).
+Proof. intros w0 Hn. rewrite nth_upd_other; auto. Qed.
+Lemma wsev_clear w ws h : wsev w ws (clear_waits ws h).
+Proof. intros w0 _. rewrite nth_clear. destruct (nth_error ws w0) as [s|]; simpl; auto. destruct (owner_is _ _); reflexivity. Qed.
+
+Lemma fev_same w g g' : g_ws g' = g_ws g -> g_c06 g' = g_c06 g -> fev w g g'.
+Proof. unfold fev. intros -> ->. split; [apply wsev_refl|reflexivity]. Qed.
+Lemma fev_trans w g1 g2 g3 : fev w g1 g2 -> fev w g2 g3 -> fev w g1 g3.
+Proof. unfold fev. intros [A B] [C D]. split; [eapply wsev_trans; eauto|congruence]. Qed.
+Lemma fev_upd w g f : fev w g (upd_w g w f).
+Proof. unfold fev, upd_w; simpl. split; [apply wsev_upd|reflexivity]. Qed.
+Lemma fev_ev w g g' w1 l st : fev w g g' -> fev w g (ev g' w1 l st).
+Proof. unfold fev, ev; simpl. auto. Qed.
+Lemma fev_abort g w : fev w g (abort g w).
+Proof. unfold fev, abort; simpl. split; [apply wsev_clear|reflexivity]. Qed.
+Lemma fev_fail_abort g w e : fev w g (fail_abort g w e).
+Proof. unfold fail_abort. eapply fev_trans; [apply fev_abort|apply fev_upd]. Qed.
+Lemma fev_fail_soft g w e : fev w g (fail_soft g w e).
+Proof. apply fev_upd. Qed.
+Lemma fev_blocked g w h l : fev w g (blocked g w h l).
+Proof. unfold blocked. destruct (reaches _ _ _ _); apply fev_ev; [apply fev_fail_abort|apply fev_upd]. Qed.
+Lemma fev_bal_done g w o r lk : fev w g (bal_done g w o r lk).
+Proof. unfold bal_done. brk; repeat (first [apply fev_upd | apply fev_fail_soft | eapply fev_trans; [apply fev_upd|]]). Qed.
+Lemma fev_set_vols w g v : fev w g (set_vols g v).
+Proof. apply fev_same; reflexivity. Qed.
+
+Lemma fev_vol_loop ks : forall g w i, fev w g (vol_loop g w ks i).
+Proof.
+  induction ks as [|[k d] r IH]; simpl; intros g w i.
+  - apply fev_ev. eapply fev_trans; [apply fev_upd|apply fev_same; reflexivity].
+  - brk; try (eapply fev_trans; [apply fev_set_vols|apply IH]).
+    eapply fev_trans; [apply fev_upd|apply fev_blocked].
+Qed.
+
+Lemma fev_do_bal g w s : fev w g (do_bal g w s).
+Proof.
+  unfold do_bal. brk;
+    try (eapply fev_trans; [apply fev_upd|apply fev_blocked]);
+    try (apply fev_ev; first [apply fev_bal_done | eapply fev_trans; [apply fev_set_vols|apply fev_bal_done]]).
+Qed.
+
+Lemma fev_ws w g g' : g_c06 g' = g_c06 g -> (exists f, g_ws g' = upd_nth (g_ws g) w f) -> fev w g g'.
+Proof. intros Hc [f Hf]. unfold fev. rewrite Hf. split; [apply wsev_upd|exact Hc]. Qed.
+
+Ltac fev_tac := repeat first [ apply fev_ev | apply fev_upd | apply fev_fail_soft | apply fev_fail_abort | apply fev_blocked
+                             | apply fev_same; reflexivity | (apply fev_ws; [reflexivity|eexists; reflexivity]) ].
+
+Lemma fev_do_tx g w s : fev w g (do_tx g w s).
+Proof.
+  unfold do_tx. destruct (my_pending_tx g w).
+  - brk; fev_tac.
+  - set (row := {| t_id := g_ntx g; t_ref := tx_ref (w_op s); t_own := Some w; t_rev := false; t_revlock := None; t_pend := true |}).
+    set (g1 := upd_w (set_ntx (set_txs g (g_txs g ++ [row])) (g_ntx g + 1)) w (fun s0 => wset_txid s0 (Some (g_ntx g)))).
+    assert (H1 : fev w g g1) by (unfold g1; fev_tac).
+    brk; (eapply fev_trans; [exact H1|]); fev_tac.
+Qed.
+Lemma fev_do_log g w s : fev w g (do_log g w s).
+Proof.
+  unfold do_log. destruct (g_hash g && negb (owner_is (g_adv g) w)); [apply fev_same; reflexivity|].
+  destruct (my_pending_log g w).
+  - brk; fev_tac.
+  - set (row := {| l_id := g_nlog g; l_ik := o_ik (w_op s); l_inh := o_inh (w_op s); l_own := Some w;
+                   l_tx := match w_txid s with Some i => i | None => 0 end; l_pend := true |}).
+    set (g1 := upd_w (set_nlog (set_logs g (g_logs g ++ [row])) (g_nlog g + 1)) w (fun s0 => wset_logid s0 (Some (g_nlog g)))).
+    assert (H1 : fev w g g1) by (unfold g1; fev_tac).
+    brk; (eapply fev_trans; [exact H1|]); fev_tac.
+Qed.
+
+(* every store call except COMMIT *)
+Lemma step_fev g w s : get_w g w = Some s -> w_pc s <> PCommit -> fev w g (step g w).
+Proof.
+  intros Hs Hpc. unfold step. rewrite Hs. destruct (w_pc s); try congruence.
+  - unfold do_ik. brk; fev_tac.
+  - unfold do_rev. brk; fev_tac.
+  - apply fev_do_bal.
+  - apply fev_vol_loop.
+  - apply fev_do_tx.
+  - unfold do_adv. brk; fev_tac.
+  - apply fev_do_log.
+  - unfold do_rollback. brk; apply fev_ev; (eapply fev_trans; [apply fev_abort|apply fev_upd]).
+  - unfold do_fetch. brk; fev_tac.
+  - apply fev_same; reflexivity.
+Qed.
+Lemma commit_wev g w s : wev w g (do_commit g w s).
+Proof. unfold wev, do_commit; simpl. eapply wsev_trans; [apply wsev_clear|apply wsev_upd]. Qed.
+Lemma step_wev g w : wev w g (step g w).
+Proof.
+  unfold step. destruct (get_w g w) as [s|] eqn:Hs; [|apply wsev_refl].
+  destruct (w_pc s) eqn:Hpc; try (assert (H : fev w g (step g w)) by (apply (step_fev g w s); auto; congruence);
+    unfold step in H; rewrite Hs, Hpc in H; exact (proj1 H)).
+  apply commit_wev.
+Qed.
+
+(* ---------------------------------------------------------------- C06: the two-phase-locking invariant *)
+(* the critical section of a writer: from the statement after GetBalances to COMMIT *)
+Definition crit (p : cpc) : bool := match p with PVol | PTx | PAdv | PLog | PCommit => true | _ => false end.
+(* what UpdateVolumes adds to the balance of the source row *)
+Definition src_delta (o : cop) : Z := if ckey_eqb (src_key o) (dst_key o) then 0 else - o_amt o.
+
+(* writer w holds the lock of its source row; the committed balance of that row is still the one it read and checked;
+   the only uncommitted change on it is its own debit *)
+Definition Arow (vs : list vrow) (w : wid) (o : cop) (read a : Z) : Prop :=
+  0 <= o_amt o /\ o_amt o <= read + a /\
+  exists r, vfind vs (src_key o) = Some r /\ v_lock r = Some w /\ v_bal r = read /\
+            (v_pend r = 0 \/ (v_upd r = true /\ v_pend r = src_delta o)).
+Definition Jw (g : gst) (w : wid) : Prop :=
+  forall s a, nth_error (g_ws g) w = Some s -> allowance (w_op s) = Some a -> w_locked s = true -> crit (w_pc s) = true ->
+              Arow (g_vols g) w (w_op s) (w_read s) a.
+
+Lemma Jw_same g g' w : g_vols g' = g_vols g -> g_ws g' = g_ws g -> Jw g w -> Jw g' w.
+Proof. unfold Jw. intros -> ->. auto. Qed.
+Lemma Jw_ev g w w1 l st : Jw g w -> Jw (ev g w1 l st) w.
+Proof. apply Jw_same; reflexivity. Qed.
+Lemma Jw_dead g w :
+  (forall s, nth_error (g_ws g) w = Some s -> crit (w_pc s) = false \/ w_locked s = false \/ allowance (w_op s) = None) -> Jw g w.
+Proof. intros H s a Hn Ha Hl Hc. destruct (H s Hn) as [E|[E|E]]; congruence. Qed.
+Lemma Jw_upd g w f :
+  Jw g w ->
+  (forall s, nth_error (g_ws g) w = Some s ->
+     w_op (f s) = w_op s /\ w_read (f s) = w_read s /\
+     (crit (w_pc (f s)) = true -> w_locked (f s) = true -> allowance (w_op s) <> None -> crit (w_pc s) = true /\ w_locked s = true)) ->
+  Jw (upd_w g w f) w.
+Proof.
+  intros HJ Hf s' a Hn Ha Hl Hc. simpl in Hn. rewrite nth_upd_same in Hn.
+  destruct (nth_error (g_ws g) w) as [s|] eqn:Hs; simpl in Hn; [|discriminate]. inversion Hn; subst s'. clear Hn.
+  destruct (Hf s eq_refl) as [E1 [E2 E3]]. rewrite E1 in *. rewrite E2.
+  destruct (E3 Hc Hl) as [Hc' Hl']; [congruence|]. simpl. apply HJ; auto.
+Qed.
+
+Ltac upd_side := let s0 := fresh "s0" in let H0 := fresh "H0" in
+  intros s0 H0; simpl; repeat split; auto; intros; try discriminate; try congruence.
+
+Lemma Jw_fail_abort g w e : Jw (fail_abort g w e) w.
+Proof.
+  apply Jw_dead. intros s Hn. unfold fail_abort in Hn. simpl in Hn. rewrite nth_upd_same, nth_clear in Hn.
+  destruct (nth_error (g_ws g) w); simpl in Hn; [|discriminate]. inversion Hn; subst. left. reflexivity.
+Qed.
+Lemma Jw_fail_soft g w e : Jw (fail_soft g w e) w.
+Proof.
+  apply Jw_dead. intros s Hn. unfold fail_soft in Hn. simpl in Hn. rewrite nth_upd_same in Hn.
+  destruct (nth_error (g_ws g) w); simpl in Hn; [|discriminate]. inversion Hn; subst. left. reflexivity.
+Qed.
+Lemma Jw_blocked g w h l : Jw g w -> Jw (blocked g w h l) w.
+Proof.
+  intros HJ. unfold blocked. destruct (reaches _ _ _ _); apply Jw_ev; [apply Jw_fail_abort|].
+  apply Jw_upd; auto; upd_side.
+Qed.
+
+Lemma after_ik_crit o : crit (after_ik o) = true -> allowance o = None.
+Proof.
+  unfold after_ik, has_bal. destruct (o_kind o); simpl; [|discriminate].
+  destruct (allowance o); simpl; [discriminate|auto].
+Qed.
+Lemma start_pc_crit o b : crit (start_pc o b) = true -> allowance o = None.
+Proof. unfold start_pc. destruct (_ && _); simpl; [discriminate|apply after_ik_crit]. Qed.
+
+(* GetBalances took the lock (or inserted the row): the invariant is established *)
+Lemma Jw_bal_done_locked g w s x :
+  nth_error (g_ws g) w = Some s -> vfind (g_vols g) (src_key (w_op s)) = Some x -> v_lock x = Some w -> v_pend x = 0 ->
+  Jw (bal_done g w (w_op s) (v_bal x) true) w.
+Proof.
+  intros Hs Hf Hl Hp. unfold bal_done. destruct (allowance (w_op s)) as [a|] eqn:Ha.
+  - destruct ((0 <=? o_amt (w_op s)) && (o_amt (w_op s) <=? v_bal x + a)) eqn:Hchk; [|apply Jw_fail_soft].
+    apply andb_true_iff in Hchk. destruct Hchk as [H1 H2]. apply Z.leb_le in H1, H2.
+    intros s' a' Hn Ha' Hlk Hc. simpl in Hn. rewrite !nth_upd_same, Hs in Hn. simpl in Hn. inversion Hn; subst s'. simpl in *.
+    rewrite Ha in Ha'. inversion Ha'; subst a'. split; [auto|split; [auto|]]. exists x. auto.
+  - apply Jw_dead. intros s' Hn. simpl in Hn. rewrite !nth_upd_same, Hs in Hn. simpl in Hn. inversion Hn; subst s'. simpl. auto.
+Qed.
+Lemma Jw_bal_done_unlocked g w o r : Jw (bal_done g w o r false) w.
+Proof.
+  apply Jw_dead. intros s Hn. unfold bal_done in Hn.
+  destruct (allowance o); [destruct (_ && _)|]; simpl in Hn; rewrite !nth_upd_same in Hn;
+    destruct (nth_error (g_ws g) w); simpl in Hn; try discriminate; inversion Hn; subst; simpl; auto.
+Qed.
+
+Lemma vol_keys_src o k d : In (k, d) (vol_keys o) -> k = src_key o -> d = src_delta o.
+Proof.
+  unfold vol_keys, src_delta. destruct (ckey_eqb (src_key o) (dst_key o)) eqn:E.
+  - intros [H|[]] _. inversion H; auto.
+  - destruct (String.leb _ _); intros [H|[H|[]]] Hk; inversion H; subst; auto;
+      rewrite H1 in E; rewrite ckey_eqb_refl in E; discriminate.
+Qed.
+Lemma in_skipn {A} (x : A) n l : In x (skipn n l) -> In x l.
+Proof. revert l. induction n as [|n IH]; intros [|y r]; simpl; auto. Qed.
+
+Lemma Jw_vol_loop ks : forall g w i s,
+  nth_error (g_ws g) w = Some s -> w_pc s = PVol ->
+  (forall k d, In (k, d) ks -> k = src_key (w_op s) -> d = src_delta (w_op s)) ->
+  Jw g w -> Jw (vol_loop g w ks i) w.
+Proof.
+  induction ks as [|[k d] rest IH]; simpl; intros g w i s Hs Hpc Hks HJ.
+  - apply Jw_ev. apply Jw_upd; auto. intros s0 H0. rewrite Hs in H0. inversion H0; subst s0. simpl. rewrite Hpc. auto.
+  - assert (Hrest : forall k0 d0, In (k0, d0) rest -> k0 = src_key (w_op s) -> d0 = src_delta (w_op s)) by (intros; eapply Hks; eauto).
+    destruct (vfind (g_vols g) k) as [x|] eqn:Hf.
+    + set (f := fun x0 => {| v_key := v_key x0; v_bal := v_bal x0; v_pend := if v_upd x0 then v_pend x0 else v_pend x0 + d;
+                             v_lock := Some w; v_new := v_new x0; v_upd := true |}).
+      assert (Htake : Jw (set_vols g (vtake (g_vols g) w k f)) w).
+      { intros s' a Hn Ha Hl Hc. simpl in Hn. rewrite Hs in Hn. inversion Hn; subst s'.
+        destruct (HJ s a Hs Ha Hl Hc) as [A1 [A2 [r [Hr [Hlk [Hb Hp]]]]]].
+        split; [auto|split; [auto|]]. simpl. unfold vtake.
+        rewrite vfind_map by (intros y; destruct (_ && _); reflexivity). rewrite Hr. simpl.
+        destruct (vfind_key _ _ _ Hr) as [Hkr _].
+        destruct (ckey_eqb (v_key r) k && free_for w r) eqn:E.
+        - apply andb_true_iff in E. destruct E as [E _]. apply ckey_eqb_eq in E.
+          assert (Hd : d = src_delta (w_op s)) by (apply (Hks k d); [left; auto|congruence]).
+          exists (f r). simpl. repeat split; auto.
+          destruct (v_upd r) eqn:Eu.
+          + destruct Hp as [Hp|[_ Hp]]; [left; auto|right; auto].
+          + destruct Hp as [Hp|[Hp _]]; [|discriminate]. right. split; auto. lia.
+        - exists r. auto. }
+      destruct (v_lock x) as [h|].
+      * destruct (Nat.eqb h w).
+        -- apply (IH _ w (S i) s); auto.
+        -- apply Jw_blocked. apply Jw_upd; auto; upd_side.
+      * apply (IH _ w (S i) s); auto.
+    + apply (IH _ w (S i) s); auto.
+      intros s' a Hn Ha Hl Hc. simpl in Hn. destruct (HJ s' a Hn Ha Hl Hc) as [A1 [A2 [r [Hr Hrest']]]].
+      split; [auto|split; [auto|]]. exists r. split; auto. simpl. apply vfind_app_some; auto.
+Qed.
+
+(* the writer's own store call keeps its invariant *)
+Lemma Jw_own g w : unlocked_clean (g_vols g) -> Jw g w -> Jw (step g w) w.
+Proof.
+  intros HU HJ. unfold step. destruct (get_w g w) as [s|] eqn:Hs; [|exact HJ]. unfold get_w in Hs.
+  destruct (w_pc s) eqn:Hpc.
+  - (* ik *) unfold do_ik. apply Jw_ev. brk; try apply Jw_fail_soft; apply Jw_upd; auto; intros s0 H0; rewrite Hs in H0; inversion H0; subst s0; simpl;
+      repeat split; auto; intros; try discriminate. exfalso. apply H2. apply after_ik_crit; auto.
+  - (* rev *) unfold do_rev. brk; try (apply Jw_ev; apply Jw_fail_soft); try (apply Jw_blocked; auto);
+      apply Jw_ev; apply Jw_upd; try (apply (Jw_same g); auto; reflexivity); upd_side.
+  - (* bal *) unfold do_bal. destruct (vfind (g_vols g) (src_key (w_op s))) as [x|] eqn:Hf.
+    + destruct (v_lock x) as [h|] eqn:Hl.
+      * brk; try (apply Jw_ev; apply Jw_bal_done_unlocked);
+          apply Jw_blocked; apply Jw_upd; auto; upd_side.
+      * brk; try (apply Jw_ev; apply Jw_bal_done_unlocked).
+        apply Jw_ev.
+        set (f := fun x0 => {| v_key := v_key x0; v_bal := v_bal x0; v_pend := v_pend x0; v_lock := Some w; v_new := v_new x0; v_upd := v_upd x0 |}).
+        replace (v_bal x) with (v_bal (f x)) by reflexivity.
+        apply (Jw_bal_done_locked (set_vols g (vtake (g_vols g) w (src_key (w_op s)) f)) w s (f x)); auto.
+        -- simpl. unfold vtake. rewrite vfind_map by (intros y; destruct (_ && _); reflexivity). rewrite Hf. simpl.
+           destruct (vfind_key _ _ _ Hf) as [Hk _]. rewrite Hk, ckey_eqb_refl. unfold free_for. rewrite Hl. reflexivity.
+        -- simpl. destruct (vfind_key _ _ _ Hf) as [_ Hin]. apply (HU x Hin Hl).
+    + apply Jw_ev.
+      set (row := {| v_key := src_key (w_op s); v_bal := 0; v_pend := 0; v_lock := Some w; v_new := true; v_upd := false |}).
+      apply (Jw_bal_done_locked (set_vols g (g_vols g ++ [row])) w s row); auto.
+      simpl. rewrite vfind_app_none by auto. simpl. rewrite ckey_eqb_refl. reflexivity.
+  - (* vol *) unfold do_vol. apply (Jw_vol_loop _ g w (w_volk s) s); auto.
+    intros k d Hin. apply vol_keys_src. eapply in_skipn; eauto.
+  - (* tx *) unfold do_tx. destruct (my_pending_tx g w).
+    + brk; try (apply Jw_blocked; auto); try (apply Jw_ev; apply Jw_fail_abort);
+        apply Jw_ev; apply Jw_upd; try (apply (Jw_same g); auto; reflexivity);
+        intros s0 H0; simpl in H0; rewrite Hs in H0; inversion H0; subst s0; simpl; rewrite Hpc; auto.
+    + set (row := {| t_id := g_ntx g; t_ref := tx_ref (w_op s); t_own := Some w; t_rev := false; t_revlock := None; t_pend := true |}).
+      set (g1 := upd_w (set_ntx (set_txs g (g_txs g ++ [row])) (g_ntx g + 1)) w (fun s0 => wset_txid s0 (Some (g_ntx g)))).
+      assert (H1 : Jw g1 w) by (unfold g1; apply Jw_upd; [apply (Jw_same g); auto; reflexivity|upd_side]).
+      assert (Hs1 : nth_error (g_ws g1) w = Some (wset_txid s (Some (g_ntx g)))) by (unfold g1; simpl; rewrite nth_upd_same, Hs; reflexivity).
+      brk; try (apply Jw_blocked; auto); try (apply Jw_ev; apply Jw_fail_abort);
+        apply Jw_ev; apply Jw_upd; try (apply (Jw_same g1); auto; reflexivity);
+        intros s0 H0; change (nth_error (g_ws g1) w = Some s0) in H0; rewrite Hs1 in H0; inversion H0; subst s0; simpl; rewrite Hpc; auto.
+  - (* adv *) unfold do_adv. brk; try (apply Jw_blocked; auto);
+      apply Jw_ev; apply Jw_upd; try (apply (Jw_same g); auto; reflexivity);
+      intros s0 H0; simpl in H0; rewrite Hs in H0; inversion H0; subst s0; simpl; rewrite Hpc; auto.
+  - (* log *) unfold do_log. destruct (g_hash g && negb (owner_is (g_adv g) w)); [exact HJ|].
+    destruct (my_pending_log g w).
+    + brk; try (apply Jw_blocked; auto); try (apply Jw_ev; apply Jw_fail_abort);
+        apply Jw_ev; apply Jw_upd; try (apply (Jw_same g); auto; reflexivity);
+        intros s0 H0; simpl in H0; rewrite Hs in H0; inversion H0; subst s0; simpl; rewrite Hpc; auto.
+    + set (row := {| l_id := g_nlog g; l_ik := o_ik (w_op s); l_inh := o_inh (w_op s); l_own := Some w;
+                     l_tx := match w_txid s with Some i => i | None => 0 end; l_pend := true |}).
+      set (g1 := upd_w (set_nlog (set_logs g (g_logs g ++ [row])) (g_nlog g + 1)) w (fun s0 => wset_logid s0 (Some (g_nlog g)))).
+      assert (H1 : Jw g1 w) by (unfold g1; apply Jw_upd; [apply (Jw_same g); auto; reflexivity|upd_side]).
+      assert (Hs1 : nth_error (g_ws g1) w = Some (wset_logid s (Some (g_nlog g)))) by (unfold g1; simpl; rewrite nth_upd_same, Hs; reflexivity).
+      brk; try (apply Jw_blocked; auto); try (apply Jw_ev; apply Jw_fail_abort);
+        apply Jw_ev; apply Jw_upd; try (apply (Jw_same g1); auto; reflexivity);
+        intros s0 H0; change (nth_error (g_ws g1) w = Some s0) in H0; rewrite Hs1 in H0; inversion H0; subst s0; simpl; rewrite Hpc; auto.
+  - (* commit *) unfold do_commit. apply Jw_ev. apply Jw_dead. intros s0 H0. simpl in H0.
+    rewrite nth_upd_same, nth_clear, Hs in H0. simpl in H0. inversion H0; subst s0. left. destruct (owner_is _ _); reflexivity.
+  - (* rollback *) unfold do_rollback. apply Jw_ev. destruct (w_err s) as [[]|]; destruct (w_retry s); destruct (String.eqb (o_ik (w_op s)) "");
+      apply Jw_dead; intros s0 H0; simpl in H0; rewrite nth_upd_same, nth_clear, Hs in H0; simpl in H0; inversion H0; subst s0; simpl;
+      first [left; reflexivity | right; left; reflexivity].
+  - (* fetch *) unfold do_fetch. apply Jw_ev. brk; apply Jw_upd; auto; upd_side.
+  - exact HJ.
+Qed.
+
+Lemma Jw_other g w w0 : w0 <> w -> Jw g w0 -> Jw (step g w) w0.
+Proof.
+  intros Hne HJ s' a Hn Ha Hl Hc.
+  pose proof (step_wev g w w0 Hne) as Hw. rewrite Hn in Hw. simpl in Hw.
+  destruct (nth_error (g_ws g) w0) as [s|] eqn:Hs; simpl in Hw; [|discriminate].
+  unfold wcore in Hw. inversion Hw as [[E1 E2 E3 E4 E5]]. rewrite E1, E3 in *. rewrite E2 in Hc. rewrite E4 in Hl.
+  destruct (HJ s a Hs Ha Hl Hc) as [A1 [A2 [r [Hr [Hlk Hrest]]]]].
+  split; [auto|split; [auto|]]. exists r. split; auto.
+  eapply vevo_frame; [apply step_vev| | |]; eauto.
+Qed.
+
+(* C06 records: a COMMIT that held the lock of its bounded source since GetBalances leaves the source at >= -allowance *)
+Definition c06_ok (c : c06rec) : Prop := c_locked c = true -> - c_allow c <= c_after c.
+Definition invA (g : gst) : Prop := unlocked_clean (g_vols g) /\ (forall w, Jw g w) /\ Forall c06_ok (g_c06 g).
+
+Lemma v_commit_key w x : v_key (v_commit w x) = v_key x.
+Proof. unfold v_commit. destruct (owner_is _ _); reflexivity. Qed.
+
+Lemma step_invA g w : invA g -> invA (step g w).
+Proof.
+  intros [HU [HJ HC]]. split; [|split].
+  - eapply vevo_clean; [apply step_vev|exact HU].
+  - intros w0. destruct (Nat.eq_dec w0 w) as [->|Hne]; [apply Jw_own; auto|apply Jw_other; auto].
+  - unfold step. destruct (get_w g w) as [s|] eqn:Hs; [|exact HC].
+    destruct (w_pc s) eqn:Hpc;
+      try (assert (H : fev w g (step g w)) by (apply (step_fev g w s); auto; congruence);
+           unfold step in H; rewrite Hs, Hpc in H; rewrite (proj2 H); exact HC); try exact HC.
+    unfold do_commit. simpl. apply Forall_app. split; [exact HC|].
+    destruct (allowance (w_op s)) as [a|] eqn:Ha; [|constructor].
+    constructor; [|constructor]. unfold c06_ok; simpl. intros Hl.
+    destruct (HJ w s a Hs Ha Hl) as [A1 [A2 [r [Hr [Hlk [Hb Hp]]]]]]; [rewrite Hpc; reflexivity|].
+    unfold committed_bal. rewrite vfind_map by (apply v_commit_key). rewrite Hr. simpl.
+    unfold v_commit. rewrite Hlk. simpl. rewrite Nat.eqb_refl. simpl.
+    unfold src_delta in Hp. destruct Hp as [Hp|[_ Hp]]; [lia|]. destruct (ckey_eqb _ _); lia.
+Qed.
+
+Theorem invA_all_schedules g sched : invA g -> invA (run g sched).
+Proof. apply run_inv. apply step_invA. Qed.
+
+(* ---------------------------------------------------------------- C06: if the source rows exist, every COMMIT held the lock *)
+Lemma map_op_upd ws w f : (forall s, w_op (f s) = w_op s) -> map w_op (upd_nth ws w f) = map w_op ws.
+Proof. intros Hf. revert w. induction ws as [|x r IH]; intros [|w]; simpl; auto; rewrite ?Hf, ?IH; auto. Qed.
+Lemma map_op_clear ws h : map w_op (clear_waits ws h) = map w_op ws.
+Proof. unfold clear_waits. rewrite map_map. apply map_ext. intros s. destruct (owner_is _ _); reflexivity. Qed.
+
+Definition oev (g g' : gst) : Prop := map w_op (g_ws g') = map w_op (g_ws g).
+Lemma oev_trans g1 g2 g3 : oev g1 g2 -> oev g2 g3 -> oev g1 g3.
+Proof. unfold oev. congruence. Qed.
+Lemma oev_ws g g' w f : g_ws g' = upd_nth (g_ws g) w f -> (forall s, w_op (f s) = w_op s) -> oev g g'.
+Proof. unfold oev. intros -> H. apply map_op_upd; auto. Qed.
+Lemma oev_same g g' : g_ws g' = g_ws g -> oev g g'.
+Proof. unfold oev. intros ->. reflexivity. Qed.
+Lemma oev_abort g w : oev g (abort g w).
+Proof. unfold oev, abort; simpl. apply map_op_clear. Qed.
+Ltac oev_calc := unfold oev; simpl; repeat (first [rewrite map_op_upd by (intros; reflexivity) | rewrite map_op_clear]); reflexivity.
+Lemma oev_fail_abort g w e : oev g (fail_abort g w e).
+Proof. unfold fail_abort. oev_calc. Qed.
+Lemma oev_ev_fail_abort g w e w1 l st : oev g (ev (fail_abort g w e) w1 l st).
+Proof. unfold fail_abort. oev_calc. Qed.
+Lemma oev_blocked g w h l : oev g (blocked g w h l).
+Proof. unfold blocked. destruct (reaches _ _ _ _); [apply oev_ev_fail_abort|oev_calc]. Qed.
+Lemma oev_bal_done g w o r lk : oev g (bal_done g w o r lk).
+Proof. unfold bal_done, fail_soft. brk; oev_calc. Qed.
+Lemma oev_vol_loop ks : forall g w i, oev g (vol_loop g w ks i).
+Proof.
+  induction ks as [|[k d] r IH]; simpl; intros g w i.
+  - oev_calc.
+  - brk; try (eapply oev_trans; [|apply IH]; apply oev_same; reflexivity).
+    eapply oev_trans; [|apply oev_blocked]. oev_calc.
+Qed.
+Ltac oev_tac := first [ oev_calc | apply oev_blocked | apply oev_ev_fail_abort
+                      | (eapply oev_trans; [|apply oev_blocked]; oev_calc)
+                      | (eapply oev_trans; [|apply oev_ev_fail_abort]; oev_calc) ].
+Lemma step_oev g w : oev g (step g w).
+Proof.
+  unfold step. destruct (get_w g w) as [s|]; [|apply oev_same; reflexivity].
+  destruct (w_pc s).
+  - unfold do_ik, fail_soft. brk; oev_tac.
+  - unfold do_rev, fail_soft. brk; oev_tac.
+  - unfold do_bal. brk; try (eapply oev_trans; [|apply oev_blocked]; oev_calc);
+      unfold ev; match goal with |- oev ?g (set_ev (bal_done ?g1 ?w ?o ?r ?lk) _) =>
+        pose proof (oev_bal_done g1 w o r lk) as H; unfold oev in *; simpl in *; exact H end.
+  - apply oev_vol_loop.
+  - unfold do_tx. destruct (my_pending_tx g w); brk; oev_tac.
+  - unfold do_adv. brk; oev_tac.
+  - unfold do_log. destruct (g_hash g && negb (owner_is (g_adv g) w)); [apply oev_same; reflexivity|].
+    destruct (my_pending_log g w); brk; oev_tac.
+  - unfold do_commit. oev_calc.
+  - unfold do_rollback, abort. brk; oev_calc.
+  - unfold do_fetch. brk; oev_tac.
+  - apply oev_same; reflexivity.
+Qed.
+
+(* the source rows of all bounded requests exist (committed) - and keep existing *)
+Definition Eg (g : gst) : Prop :=
+  forall o a, In o (map w_op (g_ws g)) -> allowance o = Some a -> exists r, vfind (g_vols g) (src_key o) = Some r /\ v_new r = false.
+Lemma step_Eg g w : Eg g -> Eg (step g w).
+Proof.
+  intros H o a Hin Ha. rewrite (step_oev g w) in Hin. destruct (H o a Hin Ha) as [r [Hr Hn]].
+  eapply vevo_exists; [apply step_vev|eauto|auto].
+Qed.
+
+(* a bounded request never holds a "no row" snapshot and is locked throughout its critical section *)
+Definition Pw (ws : list wst) (w : wid) : Prop :=
+  forall s a, nth_error ws w = Some s -> allowance (w_op s) = Some a ->
+              w_norow s <> Some true /\ (crit (w_pc s) = true -> w_locked s = true).
+Definition Pg (g : gst) (w : wid) : Prop := Pw (g_ws g) w.
+
+Lemma Pw_upd ws w f :
+  Pw ws w ->
+  (forall s, nth_error ws w = Some s ->
+     w_op (f s) = w_op s /\
+     (forall a, allowance (w_op s) = Some a -> w_norow s <> Some true -> (crit (w_pc s) = true -> w_locked s = true) ->
+                w_norow (f s) <> Some true /\ (crit (w_pc (f s)) = true -> w_locked (f s) = true))) ->
+  Pw (upd_nth ws w f) w.
+Proof.
+  intros HP Hf s' a Hn Ha. rewrite nth_upd_same in Hn.
+  destruct (nth_error ws w) as [s|] eqn:Hs; simpl in Hn; [|discriminate]. inversion Hn; subst s'. clear Hn.
+  destruct (Hf s eq_refl) as [E1 E2]. rewrite E1 in Ha. destruct (HP s a Hs Ha) as [P1 P2]. apply (E2 a); auto.
+Qed.
+Lemma Pw_clear ws w h : Pw ws w -> Pw (clear_waits ws h) w.
+Proof.
+  intros HP s' a Hn Ha. rewrite nth_clear in Hn. destruct (nth_error ws w) as [s|] eqn:Hs; simpl in Hn; [|discriminate].
+  inversion Hn; subst s'. clear Hn. destruct (owner_is _ _); simpl in *; apply (HP s a); auto.
+Qed.
+Lemma Pg_same g g' w : g_ws g' = g_ws g -> Pg g w -> Pg g' w.
+Proof. unfold Pg. intros ->. auto. Qed.
+Lemma Pg_ev g w w1 l st : Pg g w -> Pg (ev g w1 l st) w.
+Proof. apply Pg_same; reflexivity. Qed.
+Lemma Pg_upd g w f :
+  Pg g w ->
+  (forall s, nth_error (g_ws g) w = Some s ->
+     w_op (f s) = w_op s /\
+     (forall a, allowance (w_op s) = Some a -> w_norow s <> Some true -> (crit (w_pc s) = true -> w_locked s = true) ->
+                w_norow (f s) <> Some true /\ (crit (w_pc (f s)) = true -> w_locked (f s) = true))) ->
+  Pg (upd_w g w f) w.
+Proof. unfold Pg, upd_w; simpl. apply Pw_upd. Qed.
+Ltac pg_side := let s0 := fresh "s0" in let H0 := fresh "H0" in
+  intros s0 H0; simpl; split; [reflexivity|]; intros; split; simpl; auto; try discriminate; try congruence.
+
+Lemma Pg_fail_abort g w e : Pg g w -> Pg (fail_abort g w e) w.
+Proof. intros H. unfold fail_abort. apply Pg_upd; [unfold Pg, abort; simpl; apply Pw_clear; auto|pg_side]. Qed.
+Lemma Pg_fail_soft g w e : Pg g w -> Pg (fail_soft g w e) w.
+Proof. intros H. unfold fail_soft. apply Pg_upd; auto; pg_side. Qed.
+Lemma Pg_blocked g w h l : Pg g w -> Pg (blocked g w h l) w.
+Proof.
+  intros H. unfold blocked. destruct (reaches _ _ _ _).
+  - apply (Pg_same (fail_abort g w EDeadlock)); [reflexivity|apply Pg_fail_abort; auto].
+  - apply (Pg_same (upd_w g w (fun s => wset_wait s (Some h)))); [reflexivity|]. apply Pg_upd; auto; pg_side.
+Qed.
+Lemma Pg_bal_done_locked g w o r : Pg g w -> Pg (bal_done g w o r true) w.
+Proof.
+  intros H. unfold bal_done.
+  assert (H1 : Pg (upd_w g w (fun s => wset_read s r true)) w) by (apply Pg_upd; auto; pg_side).
+  brk; try (apply Pg_fail_soft; auto); apply Pg_upd; auto;
+    intros s0 H0; simpl in H0; rewrite nth_upd_same in H0; destruct (nth_error (g_ws g) w) as [s|]; simpl in H0; inversion H0; subst s0;
+    simpl; (split; [reflexivity|]); intros; split; try discriminate; auto.
+Qed.
+Lemma Pg_vol_loop ks : forall g w i, (forall s, nth_error (g_ws g) w = Some s -> w_pc s = PVol) -> Pg g w -> Pg (vol_loop g w ks i) w.
+Proof.
+  induction ks as [|[k d] rest IH]; simpl; intros g w i Hpc HP.
+  - apply (Pg_same (upd_w g w (fun s => wset_pc (wset_volk s 0%nat) PTx))); [reflexivity|].
+    apply Pg_upd; auto. intros s0 H0. simpl. split; [reflexivity|]. intros a Ha Hn Hc. split; auto. intros _. apply Hc. rewrite (Hpc s0 H0). reflexivity.
+  - brk; try (apply IH; [exact Hpc|apply (Pg_same g); auto; reflexivity]).
+    apply Pg_blocked. apply Pg_upd; auto; pg_side.
+Qed.
+
+Ltac pg_step G w Hs Pc :=
+  let s0 := fresh "s0" in let H0 := fresh "H0" in
+  apply Pg_ev; apply Pg_upd;
+  [ apply (Pg_same G); [reflexivity|auto]
+  | intros s0 H0; change (nth_error (g_ws G) w = Some s0) in H0; rewrite Hs in H0; inversion H0; subst s0; simpl;
+    (split; [reflexivity|]); intros; split; auto; intros _; apply Pc; reflexivity ].
+
+Lemma nth_in_ops g w s : nth_error (g_ws g) w = Some s -> In (w_op s) (map w_op (g_ws g)).
+Proof. intros H. apply in_map. eapply nth_error_In; eauto. Qed.
+
+Lemma Pg_own g w : Eg g -> Pg g w -> Pg (step g w) w.
+Proof.
+  intros HE HP. unfold step. destruct (get_w g w) as [s|] eqn:Hs; [|exact HP]. unfold get_w in Hs.
+  destruct (allowance (w_op s)) as [a|] eqn:Ha.
+  2:{ (* an unbounded request: nothing to show, its operation never changes *)
+      intros s' a' Hn Ha'. exfalso.
+      assert (Ho : option_map w_op (nth_error (g_ws (step g w)) w) = option_map w_op (nth_error (g_ws g) w)).
+      { rewrite <- !nth_error_map. rewrite (step_oev g w). reflexivity. }
+      unfold step in Ho. rewrite Hs in Ho. unfold get_w in Ho. rewrite Hs in Ho. rewrite Hn in Ho. simpl in Ho. inversion Ho. congruence. }
+  destruct (HP s a Hs Ha) as [Pn Pc].
+  destruct (w_pc s) eqn:Hpc.
+  - unfold do_ik. apply Pg_ev.
+    brk; try (apply Pg_fail_soft; auto); apply Pg_upd; auto; intros s0 H0; rewrite Hs in H0; inversion H0; subst s0; simpl;
+      (split; [reflexivity|]); intros; split; auto; try discriminate.
+    intros Hc. apply after_ik_crit in Hc. congruence.
+  - unfold do_rev. brk; try (apply (Pg_same (fail_soft g w ENotFound)); [reflexivity|apply Pg_fail_soft; auto]);
+      try (apply (Pg_same (fail_soft g w EAlreadyReverted)); [reflexivity|apply Pg_fail_soft; auto]);
+      try (apply Pg_blocked; auto).
+    + apply (Pg_same (upd_w g w (fun s => wset_pc s PBal))); [reflexivity|]. apply Pg_upd; auto; pg_side.
+    + eapply Pg_same; [|apply (Pg_upd g w (fun s => wset_pc s PBal)); auto; pg_side]. reflexivity.
+  - (* GetBalances: the row exists and the snapshot saw it *)
+    destruct (HE (w_op s) a (nth_in_ops g w s Hs) Ha) as [x [Hx Hnew]].
+    unfold do_bal. rewrite Hx.
+    assert (Hnr : match w_norow s with Some b => b | None => v_new x end = false).
+    { destruct (w_norow s) as [[|]|]; auto. congruence. }
+    rewrite Hnr, Hnew.
+    assert (Hwait : forall h, Pg (blocked (upd_w g w (fun s0 => wset_norow s0 (Some false))) w h LBal) w).
+    { intros h. apply Pg_blocked. apply Pg_upd; auto; pg_side. }
+    destruct (v_lock x) as [h|].
+    + destruct (v_upd x); apply Hwait.
+    + apply Pg_ev. apply Pg_bal_done_locked. apply (Pg_same g); auto; reflexivity.
+  - unfold do_vol. apply Pg_vol_loop; auto. intros s0 H0. congruence.
+  - unfold do_tx. destruct (my_pending_tx g w).
+    + brk; try (apply Pg_blocked; auto); try (apply Pg_ev; apply Pg_fail_abort; auto); pg_step g w Hs Pc.
+    + set (row := {| t_id := g_ntx g; t_ref := tx_ref (w_op s); t_own := Some w; t_rev := false; t_revlock := None; t_pend := true |}).
+      set (g1 := upd_w (set_ntx (set_txs g (g_txs g ++ [row])) (g_ntx g + 1)) w (fun s0 => wset_txid s0 (Some (g_ntx g)))).
+      assert (H1 : Pg g1 w) by (unfold g1; apply Pg_upd; [apply (Pg_same g); auto; reflexivity|pg_side]).
+      assert (Hs1 : nth_error (g_ws g1) w = Some (wset_txid s (Some (g_ntx g)))) by (unfold g1; simpl; rewrite nth_upd_same, Hs; reflexivity).
+      brk; try (apply Pg_blocked; auto); try (apply Pg_ev; apply Pg_fail_abort; auto); pg_step g1 w Hs1 Pc.
+  - unfold do_adv. brk; try (apply Pg_blocked; auto); pg_step g w Hs Pc.
+  - unfold do_log. destruct (g_hash g && negb (owner_is (g_adv g) w)); [exact HP|].
+    destruct (my_pending_log g w).
+    + brk; try (apply Pg_blocked; auto); try (apply Pg_ev; apply Pg_fail_abort; auto); pg_step g w Hs Pc.
+    + set (row := {| l_id := g_nlog g; l_ik := o_ik (w_op s); l_inh := o_inh (w_op s); l_own := Some w;
+                     l_tx := match w_txid s with Some i => i | None => 0 end; l_pend := true |}).
+      set (g1 := upd_w (set_nlog (set_logs g (g_logs g ++ [row])) (g_nlog g + 1)) w (fun s0 => wset_logid s0 (Some (g_nlog g)))).
+      assert (H1 : Pg g1 w) by (unfold g1; apply Pg_upd; [apply (Pg_same g); auto; reflexivity|pg_side]).
+      assert (Hs1 : nth_error (g_ws g1) w = Some (wset_logid s (Some (g_nlog g)))) by (unfold g1; simpl; rewrite nth_upd_same, Hs; reflexivity).
+      brk; try (apply Pg_blocked; auto); try (apply Pg_ev; apply Pg_fail_abort; auto); pg_step g1 w Hs1 Pc.
+  - unfold do_commit. unfold Pg; simpl. apply Pw_upd; [apply Pw_clear; auto|pg_side].
+  - unfold do_rollback. unfold Pg. destruct (w_err s) as [[]|]; destruct (w_retry s); destruct (String.eqb (o_ik (w_op s)) ""); simpl;
+      (apply Pw_upd; [apply Pw_clear; auto|]); intros s0 H0; simpl; (split; [reflexivity|]); intros a0 Ha0 Hn0 Hc0; split; simpl; auto; try discriminate;
+      intros Hc; apply start_pc_crit in Hc; congruence.
+  - unfold do_fetch. unfold Pg. brk; simpl; apply Pw_upd; auto; pg_side.
+  - exact HP.
+Qed.
+
+Lemma Pg_other g w w0 : w0 <> w -> Pg g w0 -> Pg (step g w) w0.
+Proof.
+  intros Hne HP s' a Hn Ha.
+  pose proof (step_wev g w w0 Hne) as Hw. rewrite Hn in Hw. simpl in Hw.
+  destruct (nth_error (g_ws g) w0) as [s|] eqn:Hs; simpl in Hw; [|discriminate].
+  unfold wcore in Hw. inversion Hw as [[E1 E2 E3 E4 E5]]. rewrite E1 in Ha. rewrite E2, E4, E5.
+  apply (HP s a); auto.
+Qed.
+
+Definition invB (g : gst) : Prop := Eg g /\ (forall w, Pg g w) /\ Forall (fun c => c_locked c = true) (g_c06 g).
+
+Lemma step_invB g w : invB g -> invB (step g w).
+Proof.
+  intros [HE [HP HC]]. split; [|split].
+  - apply step_Eg; auto.
+  - intros w0. destruct (Nat.eq_dec w0 w) as [->|Hne]; [apply Pg_own; auto|apply Pg_other; auto].
+  - unfold step. destruct (get_w g w) as [s|] eqn:Hs; [|exact HC].
+    destruct (w_pc s) eqn:Hpc;
+      try (assert (H : fev w g (step g w)) by (apply (step_fev g w s); auto; congruence);
+           unfold step in H; rewrite Hs, Hpc in H; rewrite (proj2 H); exact HC); try exact HC.
+    unfold do_commit. simpl. apply Forall_app. split; [exact HC|].
+    destruct (allowance (w_op s)) as [a|] eqn:Ha; [|constructor].
+    constructor; [|constructor]. simpl. destruct (HP w s a Hs Ha) as [_ Hc]. apply Hc. rewrite Hpc. reflexivity.
+Qed.
+Theorem invB_all_schedules g sched : invB g -> invB (run g sched).
+Proof. apply run_inv. apply step_invB. Qed.
+
+(* ---------------------------------------------------------------- initial states *)
+Lemma nth_new_writers ops w s : nth_error (map new_writer ops) w = Some s -> exists o, s = new_writer o.
+Proof. rewrite nth_error_map. destruct (nth_error ops w); simpl; [|discriminate]. intros H. inversion H. eauto. Qed.
+
+Lemma tx_inv_init hash ops : tx_inv (init hash ops).
+Proof. split; simpl; [constructor|constructor|constructor|constructor|constructor|intros t []|intros t []]. Qed.
+Lemma log_inv_init hash ops : log_inv (init hash ops).
+Proof.
+  split; simpl; [constructor|constructor|constructor|intros _; constructor|intros _; constructor|intros _ x w []].
+Qed.
+Lemma invA_init hash ops : invA (init hash ops).
+Proof.
+  split; [intros r []|split; [|constructor]]. intros w s a Hn Ha Hl. simpl in Hn.
+  destruct (nth_new_writers _ _ _ Hn) as [o ->]. simpl in Hl. discriminate.
+Qed.
+Lemma tx_inv_reseat g ops : tx_inv g -> tx_inv (reseat g ops).
+Proof. intros [A B C D E F G]. split; simpl; auto; try constructor; try (intros t _ []). Qed.
+Lemma log_inv_reseat g ops : log_inv g -> log_inv (reseat g ops).
+Proof.
+  intros [A B C D E F]. split; simpl; auto; try (intros _; constructor; fail).
+  intros H x w Hx Hw. destruct (F H x w Hx Hw). split; auto.
+Qed.
+Lemma invA_reseat g ops : invA g -> invA (reseat g ops).
+Proof.
+  intros [HU _]. split; [exact HU|split; [|constructor]]. intros w s a Hn Ha Hl. simpl in Hn.
+  destruct (nth_new_writers _ _ _ Hn) as [o ->]. simpl in Hl. discriminate.
+Qed.
+(* the hypothesis of C06_conc: every bounded request's source row exists (committed) before the race *)
+Definition rows_exist (g : gst) (ops : list cop) : Prop :=
+  forall o a, In o ops -> allowance o = Some a -> exists r, vfind (g_vols g) (src_key o) = Some r /\ v_new r = false.
+Lemma invB_reseat g ops : rows_exist g ops -> invB (reseat g ops).
+Proof.
+  intros HR. split; [|split; [|constructor]].
+  - intros o a Hin Ha. simpl in Hin. rewrite map_map in Hin. simpl in Hin. rewrite map_id in Hin. apply (HR o a); auto.
+  - intros w s a Hn Ha. simpl in Hn. destruct (nth_new_writers _ _ _ Hn) as [o ->]. simpl in *.
+    split; [discriminate|]. intros Hc. apply start_pc_crit in Hc. congruence.
+Qed.
+
+(* ---------------------------------------------------------------- the statements, on the visible tables *)
+Definition nonempty (s : string) : bool := negb (String.eqb s "").
+Lemma lkeys_visible l :
+  flat_map lkeys (filter (fun x => match l_own x with None => negb (l_pend x) | Some _ => false end) l) =
+  filter nonempty (map l_ik (filter (fun x => match l_own x with None => negb (l_pend x) | Some _ => false end) l)).
+Proof.
+  induction l as [|x r IH]; simpl; auto. destruct (l_own x); simpl; auto. destruct (l_pend x) eqn:E; simpl; auto.
+  unfold lkeys at 1, nonempty at 1. rewrite E. simpl. destruct (String.eqb (l_ik x) ""); simpl; rewrite IH; reflexivity.
+Qed.
+Lemma tkeys_visible l :
+  flat_map tkeys (filter (fun x => match t_own x with None => negb (t_pend x) | Some _ => false end) l) =
+  filter nonempty (map t_ref (filter (fun x => match t_own x with None => negb (t_pend x) | Some _ => false end) l)).
+Proof.
+  induction l as [|x r IH]; simpl; auto. destruct (t_own x); simpl; auto. destruct (t_pend x) eqn:E; simpl; auto.
+  unfold tkeys at 1, nonempty at 1. rewrite E. simpl. destruct (String.eqb (t_ref x) ""); simpl; rewrite IH; reflexivity.
+Qed.
+
+Theorem unique_keys_committed g : log_inv g -> NoDup (filter nonempty (map l_ik (committed_logs g))).
+Proof. intros H. unfold committed_logs. rewrite <- lkeys_visible. apply nodup_flat_filter. apply (lg_keys _ _ _ _ _ H). Qed.
+Theorem unique_refs_committed g : tx_inv g -> NoDup (filter nonempty (map t_ref (committed_txs g))).
+Proof. intros H. unfold committed_txs. rewrite <- tkeys_visible. apply nodup_flat_filter. apply (tx_keys _ _ _ H). Qed.
+
+(* reachable states: after a serial prefix, any schedule of the writers *)
+Lemma outcome_tx_inv hash prefix writers sched : tx_inv (sched_outcome hash prefix writers sched).
+Proof. apply tx_inv_all_schedules. apply tx_inv_reseat. apply tx_inv_all_schedules. apply tx_inv_init. Qed.
+Lemma outcome_log_inv hash prefix writers sched : log_inv (sched_outcome hash prefix writers sched).
+Proof. apply log_inv_all_schedules. apply log_inv_reseat. apply log_inv_all_schedules. apply log_inv_init. Qed.
+Lemma outcome_invA hash prefix writers sched : invA (sched_outcome hash prefix writers sched).
+Proof. apply invA_all_schedules. apply invA_reseat. apply invA_all_schedules. apply invA_init. Qed.
+Lemma outcome_invB hash prefix writers sched :
+  rows_exist (after_prefix hash prefix writers) writers -> invB (sched_outcome hash prefix writers sched).
+Proof. intros H. apply invB_all_schedules. unfold after_prefix in *. apply invB_reseat. exact H. Qed.
+
+(* compatibility: the id part alone *)
+Definition ids_inv (g : gst) : Prop :=
+  (NoDup (map t_id (g_txs g)) /\ Forall (fun t => t_id t < g_ntx g) (g_txs g)) /\
+  (NoDup (map l_id (g_logs g)) /\ Forall (fun l => l_id l < g_nlog g) (g_logs g)).
+Lemma inv_ids g : tx_inv g -> log_inv g -> ids_inv g.
+Proof. intros [A B _ _ _ _ _] [C D _ _ _ _]. split; split; auto. apply sorted_nodup; auto. Qed.
